@@ -306,16 +306,51 @@ let parse_html_text which value s =
                  true, false)), (String ((Ascii (false, true, true, true,
                  false, true, false, false)), EmptyString))))))) :: [])) s))
 
-(** val parse_v_model :
-    node -> bool -> node option -> str list -> st -> directive * st **)
+(** val array_form :
+    bool -> node option -> str list -> node list -> (node * node
+    option) * str list option **)
 
-let parse_v_model value is_component argument splitted s =
+let array_form dflt argument splitted elems =
+  let v =
+    match elems with
+    | [] -> empty_ident
+    | n :: _ ->
+      (match n with
+       | Elem (spread, e) -> if spread then empty_ident else e
+       | _ -> empty_ident)
+  in
+  let arg_d =
+    if dflt
+    then (match argument with
+          | Some _ -> argument
+          | None -> Some Null)
+    else argument
+  in
+  (match elem_at elems (S O) with
+   | Some e ->
+     (match e with
+      | Arr elems2 -> ((v, arg_d), (Some (parse_modifiers elems2)))
+      | _ ->
+        ((v, (match argument with
+              | Some _ -> argument
+              | None -> Some e)),
+          (match elem_at elems (S (S O)) with
+           | Some n ->
+             (match n with
+              | Arr elems3 -> Some (parse_modifiers elems3)
+              | _ -> None)
+           | None -> None)))
+   | None -> ((v, arg_d), (Some (set_of_list splitted))))
+
+(** val vmodel_attr_value : node -> st -> node * st **)
+
+let vmodel_attr_value value s =
   match value with
   | JExprC e ->
     (match e with
      | JEmpty ->
-       let s0 =
-         add_diag (String ((Ascii (true, false, false, true, true, false,
+       (empty_ident,
+         (add_diag (String ((Ascii (true, false, false, true, true, false,
            true, false)), (String ((Ascii (true, true, true, true, false,
            true, true, false)), (String ((Ascii (true, false, true, false,
            true, true, true, false)), (String ((Ascii (false, false, false,
@@ -375,2420 +410,11 @@ let parse_v_model value is_component argument splitted s =
            (false, false, false, false, false, true, true, false)), (String
            ((Ascii (false, true, true, true, false, true, false, false)),
            EmptyString))))))))))))))))))))))))))))))))))))))))))))))))))))))))))))))))))))))))))))))))))))))))))))))))))))))))))
-           s
-       in
-       let s1 =
-         match empty_ident with
-         | Arr elems ->
-           (match elems with
-            | [] ->
-              add_diag (String ((Ascii (false, false, true, false, true,
-                false, true, false)), (String ((Ascii (false, false, false,
-                true, false, true, true, false)), (String ((Ascii (true,
-                false, true, false, false, true, true, false)), (String
-                ((Ascii (false, false, false, false, false, true, false,
-                false)), (String ((Ascii (false, true, true, false, false,
-                true, true, false)), (String ((Ascii (true, false, false,
-                true, false, true, true, false)), (String ((Ascii (false,
-                true, false, false, true, true, true, false)), (String
-                ((Ascii (true, true, false, false, true, true, true, false)),
-                (String ((Ascii (false, false, true, false, true, true, true,
-                false)), (String ((Ascii (false, false, false, false, false,
-                true, false, false)), (String ((Ascii (true, false, true,
-                false, false, true, true, false)), (String ((Ascii (false,
-                false, true, true, false, true, true, false)), (String
-                ((Ascii (true, false, true, false, false, true, true,
-                false)), (String ((Ascii (true, false, true, true, false,
-                true, true, false)), (String ((Ascii (true, false, true,
-                false, false, true, true, false)), (String ((Ascii (false,
-                true, true, true, false, true, true, false)), (String ((Ascii
-                (false, false, true, false, true, true, true, false)),
-                (String ((Ascii (false, false, false, false, false, true,
-                false, false)), (String ((Ascii (true, true, true, true,
-                false, true, true, false)), (String ((Ascii (false, true,
-                true, false, false, true, true, false)), (String ((Ascii
-                (false, false, false, false, false, true, false, false)),
-                (String ((Ascii (false, false, false, false, false, true,
-                true, false)), (String ((Ascii (false, true, true, false,
-                true, true, true, false)), (String ((Ascii (true, false,
-                true, true, false, true, false, false)), (String ((Ascii
-                (true, false, true, true, false, true, true, false)), (String
-                ((Ascii (true, true, true, true, false, true, true, false)),
-                (String ((Ascii (false, false, true, false, false, true,
-                true, false)), (String ((Ascii (true, false, true, false,
-                false, true, true, false)), (String ((Ascii (false, false,
-                true, true, false, true, true, false)), (String ((Ascii
-                (false, false, false, false, false, true, true, false)),
-                (String ((Ascii (false, false, false, false, false, true,
-                false, false)), (String ((Ascii (true, false, false, false,
-                false, true, true, false)), (String ((Ascii (false, true,
-                false, false, true, true, true, false)), (String ((Ascii
-                (false, true, false, false, true, true, true, false)),
-                (String ((Ascii (true, false, false, false, false, true,
-                true, false)), (String ((Ascii (true, false, false, true,
-                true, true, true, false)), (String ((Ascii (false, false,
-                false, false, false, true, false, false)), (String ((Ascii
-                (true, false, true, true, false, true, true, false)), (String
-                ((Ascii (true, false, true, false, true, true, true, false)),
-                (String ((Ascii (true, true, false, false, true, true, true,
-                false)), (String ((Ascii (false, false, true, false, true,
-                true, true, false)), (String ((Ascii (false, false, false,
-                false, false, true, false, false)), (String ((Ascii (false,
-                true, false, false, false, true, true, false)), (String
-                ((Ascii (true, false, true, false, false, true, true,
-                false)), (String ((Ascii (false, false, false, false, false,
-                true, false, false)), (String ((Ascii (false, false, true,
-                false, true, true, true, false)), (String ((Ascii (false,
-                false, false, true, false, true, true, false)), (String
-                ((Ascii (true, false, true, false, false, true, true,
-                false)), (String ((Ascii (false, false, false, false, false,
-                true, false, false)), (String ((Ascii (false, true, false,
-                false, false, true, true, false)), (String ((Ascii (true,
-                true, true, true, false, true, true, false)), (String ((Ascii
-                (true, false, true, false, true, true, true, false)), (String
-                ((Ascii (false, true, true, true, false, true, true, false)),
-                (String ((Ascii (false, false, true, false, false, true,
-                true, false)), (String ((Ascii (false, false, false, false,
-                false, true, false, false)), (String ((Ascii (true, false,
-                true, false, false, true, true, false)), (String ((Ascii
-                (false, false, false, true, true, true, true, false)),
-                (String ((Ascii (false, false, false, false, true, true,
-                true, false)), (String ((Ascii (false, true, false, false,
-                true, true, true, false)), (String ((Ascii (true, false,
-                true, false, false, true, true, false)), (String ((Ascii
-                (true, true, false, false, true, true, true, false)), (String
-                ((Ascii (true, true, false, false, true, true, true, false)),
-                (String ((Ascii (true, false, false, true, false, true, true,
-                false)), (String ((Ascii (true, true, true, true, false,
-                true, true, false)), (String ((Ascii (false, true, true,
-                true, false, true, true, false)), (String ((Ascii (false,
-                true, true, true, false, true, false, false)),
-                EmptyString))))))))))))))))))))))))))))))))))))))))))))))))))))))))))))))))))))))))))))))))))))))))))))))))))))))))))))))))))))))))))))))))))))
-                s0
-            | n :: _ ->
-              (match n with
-               | Elem (spread, _) ->
-                 if spread
-                 then add_diag (String ((Ascii (false, false, true, false,
-                        true, false, true, false)), (String ((Ascii (false,
-                        false, false, true, false, true, true, false)),
-                        (String ((Ascii (true, false, true, false, false,
-                        true, true, false)), (String ((Ascii (false, false,
-                        false, false, false, true, false, false)), (String
-                        ((Ascii (false, true, true, false, false, true, true,
-                        false)), (String ((Ascii (true, false, false, true,
-                        false, true, true, false)), (String ((Ascii (false,
-                        true, false, false, true, true, true, false)),
-                        (String ((Ascii (true, true, false, false, true,
-                        true, true, false)), (String ((Ascii (false, false,
-                        true, false, true, true, true, false)), (String
-                        ((Ascii (false, false, false, false, false, true,
-                        false, false)), (String ((Ascii (true, false, true,
-                        false, false, true, true, false)), (String ((Ascii
-                        (false, false, true, true, false, true, true,
-                        false)), (String ((Ascii (true, false, true, false,
-                        false, true, true, false)), (String ((Ascii (true,
-                        false, true, true, false, true, true, false)),
-                        (String ((Ascii (true, false, true, false, false,
-                        true, true, false)), (String ((Ascii (false, true,
-                        true, true, false, true, true, false)), (String
-                        ((Ascii (false, false, true, false, true, true, true,
-                        false)), (String ((Ascii (false, false, false, false,
-                        false, true, false, false)), (String ((Ascii (true,
-                        true, true, true, false, true, true, false)), (String
-                        ((Ascii (false, true, true, false, false, true, true,
-                        false)), (String ((Ascii (false, false, false, false,
-                        false, true, false, false)), (String ((Ascii (false,
-                        false, false, false, false, true, true, false)),
-                        (String ((Ascii (false, true, true, false, true,
-                        true, true, false)), (String ((Ascii (true, false,
-                        true, true, false, true, false, false)), (String
-                        ((Ascii (true, false, true, true, false, true, true,
-                        false)), (String ((Ascii (true, true, true, true,
-                        false, true, true, false)), (String ((Ascii (false,
-                        false, true, false, false, true, true, false)),
-                        (String ((Ascii (true, false, true, false, false,
-                        true, true, false)), (String ((Ascii (false, false,
-                        true, true, false, true, true, false)), (String
-                        ((Ascii (false, false, false, false, false, true,
-                        true, false)), (String ((Ascii (false, false, false,
-                        false, false, true, false, false)), (String ((Ascii
-                        (true, false, false, false, false, true, true,
-                        false)), (String ((Ascii (false, true, false, false,
-                        true, true, true, false)), (String ((Ascii (false,
-                        true, false, false, true, true, true, false)),
-                        (String ((Ascii (true, false, false, false, false,
-                        true, true, false)), (String ((Ascii (true, false,
-                        false, true, true, true, true, false)), (String
-                        ((Ascii (false, false, false, false, false, true,
-                        false, false)), (String ((Ascii (true, false, true,
-                        true, false, true, true, false)), (String ((Ascii
-                        (true, false, true, false, true, true, true, false)),
-                        (String ((Ascii (true, true, false, false, true,
-                        true, true, false)), (String ((Ascii (false, false,
-                        true, false, true, true, true, false)), (String
-                        ((Ascii (false, false, false, false, false, true,
-                        false, false)), (String ((Ascii (false, true, false,
-                        false, false, true, true, false)), (String ((Ascii
-                        (true, false, true, false, false, true, true,
-                        false)), (String ((Ascii (false, false, false, false,
-                        false, true, false, false)), (String ((Ascii (false,
-                        false, true, false, true, true, true, false)),
-                        (String ((Ascii (false, false, false, true, false,
-                        true, true, false)), (String ((Ascii (true, false,
-                        true, false, false, true, true, false)), (String
-                        ((Ascii (false, false, false, false, false, true,
-                        false, false)), (String ((Ascii (false, true, false,
-                        false, false, true, true, false)), (String ((Ascii
-                        (true, true, true, true, false, true, true, false)),
-                        (String ((Ascii (true, false, true, false, true,
-                        true, true, false)), (String ((Ascii (false, true,
-                        true, true, false, true, true, false)), (String
-                        ((Ascii (false, false, true, false, false, true,
-                        true, false)), (String ((Ascii (false, false, false,
-                        false, false, true, false, false)), (String ((Ascii
-                        (true, false, true, false, false, true, true,
-                        false)), (String ((Ascii (false, false, false, true,
-                        true, true, true, false)), (String ((Ascii (false,
-                        false, false, false, true, true, true, false)),
-                        (String ((Ascii (false, true, false, false, true,
-                        true, true, false)), (String ((Ascii (true, false,
-                        true, false, false, true, true, false)), (String
-                        ((Ascii (true, true, false, false, true, true, true,
-                        false)), (String ((Ascii (true, true, false, false,
-                        true, true, true, false)), (String ((Ascii (true,
-                        false, false, true, false, true, true, false)),
-                        (String ((Ascii (true, true, true, true, false, true,
-                        true, false)), (String ((Ascii (false, true, true,
-                        true, false, true, true, false)), (String ((Ascii
-                        (false, true, true, true, false, true, false,
-                        false)),
-                        EmptyString))))))))))))))))))))))))))))))))))))))))))))))))))))))))))))))))))))))))))))))))))))))))))))))))))))))))))))))))))))))))))))))))))))
-                        s0
-                 else s0
-               | _ ->
-                 add_diag (String ((Ascii (false, false, true, false, true,
-                   false, true, false)), (String ((Ascii (false, false,
-                   false, true, false, true, true, false)), (String ((Ascii
-                   (true, false, true, false, false, true, true, false)),
-                   (String ((Ascii (false, false, false, false, false, true,
-                   false, false)), (String ((Ascii (false, true, true, false,
-                   false, true, true, false)), (String ((Ascii (true, false,
-                   false, true, false, true, true, false)), (String ((Ascii
-                   (false, true, false, false, true, true, true, false)),
-                   (String ((Ascii (true, true, false, false, true, true,
-                   true, false)), (String ((Ascii (false, false, true, false,
-                   true, true, true, false)), (String ((Ascii (false, false,
-                   false, false, false, true, false, false)), (String ((Ascii
-                   (true, false, true, false, false, true, true, false)),
-                   (String ((Ascii (false, false, true, true, false, true,
-                   true, false)), (String ((Ascii (true, false, true, false,
-                   false, true, true, false)), (String ((Ascii (true, false,
-                   true, true, false, true, true, false)), (String ((Ascii
-                   (true, false, true, false, false, true, true, false)),
-                   (String ((Ascii (false, true, true, true, false, true,
-                   true, false)), (String ((Ascii (false, false, true, false,
-                   true, true, true, false)), (String ((Ascii (false, false,
-                   false, false, false, true, false, false)), (String ((Ascii
-                   (true, true, true, true, false, true, true, false)),
-                   (String ((Ascii (false, true, true, false, false, true,
-                   true, false)), (String ((Ascii (false, false, false,
-                   false, false, true, false, false)), (String ((Ascii
-                   (false, false, false, false, false, true, true, false)),
-                   (String ((Ascii (false, true, true, false, true, true,
-                   true, false)), (String ((Ascii (true, false, true, true,
-                   false, true, false, false)), (String ((Ascii (true, false,
-                   true, true, false, true, true, false)), (String ((Ascii
-                   (true, true, true, true, false, true, true, false)),
-                   (String ((Ascii (false, false, true, false, false, true,
-                   true, false)), (String ((Ascii (true, false, true, false,
-                   false, true, true, false)), (String ((Ascii (false, false,
-                   true, true, false, true, true, false)), (String ((Ascii
-                   (false, false, false, false, false, true, true, false)),
-                   (String ((Ascii (false, false, false, false, false, true,
-                   false, false)), (String ((Ascii (true, false, false,
-                   false, false, true, true, false)), (String ((Ascii (false,
-                   true, false, false, true, true, true, false)), (String
-                   ((Ascii (false, true, false, false, true, true, true,
-                   false)), (String ((Ascii (true, false, false, false,
-                   false, true, true, false)), (String ((Ascii (true, false,
-                   false, true, true, true, true, false)), (String ((Ascii
-                   (false, false, false, false, false, true, false, false)),
-                   (String ((Ascii (true, false, true, true, false, true,
-                   true, false)), (String ((Ascii (true, false, true, false,
-                   true, true, true, false)), (String ((Ascii (true, true,
-                   false, false, true, true, true, false)), (String ((Ascii
-                   (false, false, true, false, true, true, true, false)),
-                   (String ((Ascii (false, false, false, false, false, true,
-                   false, false)), (String ((Ascii (false, true, false,
-                   false, false, true, true, false)), (String ((Ascii (true,
-                   false, true, false, false, true, true, false)), (String
-                   ((Ascii (false, false, false, false, false, true, false,
-                   false)), (String ((Ascii (false, false, true, false, true,
-                   true, true, false)), (String ((Ascii (false, false, false,
-                   true, false, true, true, false)), (String ((Ascii (true,
-                   false, true, false, false, true, true, false)), (String
-                   ((Ascii (false, false, false, false, false, true, false,
-                   false)), (String ((Ascii (false, true, false, false,
-                   false, true, true, false)), (String ((Ascii (true, true,
-                   true, true, false, true, true, false)), (String ((Ascii
-                   (true, false, true, false, true, true, true, false)),
-                   (String ((Ascii (false, true, true, true, false, true,
-                   true, false)), (String ((Ascii (false, false, true, false,
-                   false, true, true, false)), (String ((Ascii (false, false,
-                   false, false, false, true, false, false)), (String ((Ascii
-                   (true, false, true, false, false, true, true, false)),
-                   (String ((Ascii (false, false, false, true, true, true,
-                   true, false)), (String ((Ascii (false, false, false,
-                   false, true, true, true, false)), (String ((Ascii (false,
-                   true, false, false, true, true, true, false)), (String
-                   ((Ascii (true, false, true, false, false, true, true,
-                   false)), (String ((Ascii (true, true, false, false, true,
-                   true, true, false)), (String ((Ascii (true, true, false,
-                   false, true, true, true, false)), (String ((Ascii (true,
-                   false, false, true, false, true, true, false)), (String
-                   ((Ascii (true, true, true, true, false, true, true,
-                   false)), (String ((Ascii (false, true, true, true, false,
-                   true, true, false)), (String ((Ascii (false, true, true,
-                   true, false, true, false, false)),
-                   EmptyString))))))))))))))))))))))))))))))))))))))))))))))))))))))))))))))))))))))))))))))))))))))))))))))))))))))))))))))))))))))))))))))))))))
-                   s0))
-         | _ -> s0
-       in
-       let (p, modifiers) =
-         match empty_ident with
-         | Arr elems ->
-           let v =
-             match elems with
-             | [] -> empty_ident
-             | n :: _ ->
-               (match n with
-                | Elem (spread, e0) -> if spread then empty_ident else e0
-                | _ -> empty_ident)
-           in
-           (match elem_at elems (S O) with
-            | Some e0 ->
-              (match e0 with
-               | NScalar _ ->
-                 let argument0 =
-                   match argument with
-                   | Some _ -> argument
-                   | None -> Some e0
-                 in
-                 let mods =
-                   match elem_at elems (S (S O)) with
-                   | Some n ->
-                     (match n with
-                      | NScalar _ -> None
-                      | NArr _ -> None
-                      | NObj _ -> None
-                      | Field (_, _) -> None
-                      | Ident (_, _, _) -> None
-                      | BIdent (_, _, _, _) -> None
-                      | IdName _ -> None
-                      | Str (_, _) -> None
-                      | Num (_, _) -> None
-                      | Bool _ -> None
-                      | Null -> None
-                      | Arr elems3 -> Some (parse_modifiers elems3)
-                      | _ -> None)
-                   | None -> None
-                 in
-                 ((v, argument0), mods)
-               | NArr _ ->
-                 let argument0 =
-                   match argument with
-                   | Some _ -> argument
-                   | None -> Some e0
-                 in
-                 let mods =
-                   match elem_at elems (S (S O)) with
-                   | Some n ->
-                     (match n with
-                      | NScalar _ -> None
-                      | NArr _ -> None
-                      | NObj _ -> None
-                      | Field (_, _) -> None
-                      | Ident (_, _, _) -> None
-                      | BIdent (_, _, _, _) -> None
-                      | IdName _ -> None
-                      | Str (_, _) -> None
-                      | Num (_, _) -> None
-                      | Bool _ -> None
-                      | Null -> None
-                      | Arr elems3 -> Some (parse_modifiers elems3)
-                      | _ -> None)
-                   | None -> None
-                 in
-                 ((v, argument0), mods)
-               | NObj _ ->
-                 let argument0 =
-                   match argument with
-                   | Some _ -> argument
-                   | None -> Some e0
-                 in
-                 let mods =
-                   match elem_at elems (S (S O)) with
-                   | Some n ->
-                     (match n with
-                      | NScalar _ -> None
-                      | NArr _ -> None
-                      | NObj _ -> None
-                      | Field (_, _) -> None
-                      | Ident (_, _, _) -> None
-                      | BIdent (_, _, _, _) -> None
-                      | IdName _ -> None
-                      | Str (_, _) -> None
-                      | Num (_, _) -> None
-                      | Bool _ -> None
-                      | Null -> None
-                      | Arr elems3 -> Some (parse_modifiers elems3)
-                      | _ -> None)
-                   | None -> None
-                 in
-                 ((v, argument0), mods)
-               | Field (_, _) ->
-                 let argument0 =
-                   match argument with
-                   | Some _ -> argument
-                   | None -> Some e0
-                 in
-                 let mods =
-                   match elem_at elems (S (S O)) with
-                   | Some n ->
-                     (match n with
-                      | NScalar _ -> None
-                      | NArr _ -> None
-                      | NObj _ -> None
-                      | Field (_, _) -> None
-                      | Ident (_, _, _) -> None
-                      | BIdent (_, _, _, _) -> None
-                      | IdName _ -> None
-                      | Str (_, _) -> None
-                      | Num (_, _) -> None
-                      | Bool _ -> None
-                      | Null -> None
-                      | Arr elems3 -> Some (parse_modifiers elems3)
-                      | _ -> None)
-                   | None -> None
-                 in
-                 ((v, argument0), mods)
-               | Ident (_, _, _) ->
-                 let argument0 =
-                   match argument with
-                   | Some _ -> argument
-                   | None -> Some e0
-                 in
-                 let mods =
-                   match elem_at elems (S (S O)) with
-                   | Some n ->
-                     (match n with
-                      | NScalar _ -> None
-                      | NArr _ -> None
-                      | NObj _ -> None
-                      | Field (_, _) -> None
-                      | Ident (_, _, _) -> None
-                      | BIdent (_, _, _, _) -> None
-                      | IdName _ -> None
-                      | Str (_, _) -> None
-                      | Num (_, _) -> None
-                      | Bool _ -> None
-                      | Null -> None
-                      | Arr elems3 -> Some (parse_modifiers elems3)
-                      | _ -> None)
-                   | None -> None
-                 in
-                 ((v, argument0), mods)
-               | BIdent (_, _, _, _) ->
-                 let argument0 =
-                   match argument with
-                   | Some _ -> argument
-                   | None -> Some e0
-                 in
-                 let mods =
-                   match elem_at elems (S (S O)) with
-                   | Some n ->
-                     (match n with
-                      | NScalar _ -> None
-                      | NArr _ -> None
-                      | NObj _ -> None
-                      | Field (_, _) -> None
-                      | Ident (_, _, _) -> None
-                      | BIdent (_, _, _, _) -> None
-                      | IdName _ -> None
-                      | Str (_, _) -> None
-                      | Num (_, _) -> None
-                      | Bool _ -> None
-                      | Null -> None
-                      | Arr elems3 -> Some (parse_modifiers elems3)
-                      | _ -> None)
-                   | None -> None
-                 in
-                 ((v, argument0), mods)
-               | IdName _ ->
-                 let argument0 =
-                   match argument with
-                   | Some _ -> argument
-                   | None -> Some e0
-                 in
-                 let mods =
-                   match elem_at elems (S (S O)) with
-                   | Some n ->
-                     (match n with
-                      | NScalar _ -> None
-                      | NArr _ -> None
-                      | NObj _ -> None
-                      | Field (_, _) -> None
-                      | Ident (_, _, _) -> None
-                      | BIdent (_, _, _, _) -> None
-                      | IdName _ -> None
-                      | Str (_, _) -> None
-                      | Num (_, _) -> None
-                      | Bool _ -> None
-                      | Null -> None
-                      | Arr elems3 -> Some (parse_modifiers elems3)
-                      | _ -> None)
-                   | None -> None
-                 in
-                 ((v, argument0), mods)
-               | Str (_, _) ->
-                 let argument0 =
-                   match argument with
-                   | Some _ -> argument
-                   | None -> Some e0
-                 in
-                 let mods =
-                   match elem_at elems (S (S O)) with
-                   | Some n ->
-                     (match n with
-                      | NScalar _ -> None
-                      | NArr _ -> None
-                      | NObj _ -> None
-                      | Field (_, _) -> None
-                      | Ident (_, _, _) -> None
-                      | BIdent (_, _, _, _) -> None
-                      | IdName _ -> None
-                      | Str (_, _) -> None
-                      | Num (_, _) -> None
-                      | Bool _ -> None
-                      | Null -> None
-                      | Arr elems3 -> Some (parse_modifiers elems3)
-                      | _ -> None)
-                   | None -> None
-                 in
-                 ((v, argument0), mods)
-               | Num (_, _) ->
-                 let argument0 =
-                   match argument with
-                   | Some _ -> argument
-                   | None -> Some e0
-                 in
-                 let mods =
-                   match elem_at elems (S (S O)) with
-                   | Some n ->
-                     (match n with
-                      | NScalar _ -> None
-                      | NArr _ -> None
-                      | NObj _ -> None
-                      | Field (_, _) -> None
-                      | Ident (_, _, _) -> None
-                      | BIdent (_, _, _, _) -> None
-                      | IdName _ -> None
-                      | Str (_, _) -> None
-                      | Num (_, _) -> None
-                      | Bool _ -> None
-                      | Null -> None
-                      | Arr elems3 -> Some (parse_modifiers elems3)
-                      | _ -> None)
-                   | None -> None
-                 in
-                 ((v, argument0), mods)
-               | Bool _ ->
-                 let argument0 =
-                   match argument with
-                   | Some _ -> argument
-                   | None -> Some e0
-                 in
-                 let mods =
-                   match elem_at elems (S (S O)) with
-                   | Some n ->
-                     (match n with
-                      | NScalar _ -> None
-                      | NArr _ -> None
-                      | NObj _ -> None
-                      | Field (_, _) -> None
-                      | Ident (_, _, _) -> None
-                      | BIdent (_, _, _, _) -> None
-                      | IdName _ -> None
-                      | Str (_, _) -> None
-                      | Num (_, _) -> None
-                      | Bool _ -> None
-                      | Null -> None
-                      | Arr elems3 -> Some (parse_modifiers elems3)
-                      | _ -> None)
-                   | None -> None
-                 in
-                 ((v, argument0), mods)
-               | Null ->
-                 let argument0 =
-                   match argument with
-                   | Some _ -> argument
-                   | None -> Some e0
-                 in
-                 let mods =
-                   match elem_at elems (S (S O)) with
-                   | Some n ->
-                     (match n with
-                      | NScalar _ -> None
-                      | NArr _ -> None
-                      | NObj _ -> None
-                      | Field (_, _) -> None
-                      | Ident (_, _, _) -> None
-                      | BIdent (_, _, _, _) -> None
-                      | IdName _ -> None
-                      | Str (_, _) -> None
-                      | Num (_, _) -> None
-                      | Bool _ -> None
-                      | Null -> None
-                      | Arr elems3 -> Some (parse_modifiers elems3)
-                      | _ -> None)
-                   | None -> None
-                 in
-                 ((v, argument0), mods)
-               | Arr elems2 ->
-                 let argument0 =
-                   if is_component
-                   then (match argument with
-                         | Some _ -> argument
-                         | None -> Some Null)
-                   else argument
-                 in
-                 ((v, argument0), (Some (parse_modifiers elems2)))
-               | Elem (_, _) ->
-                 let argument0 =
-                   match argument with
-                   | Some _ -> argument
-                   | None -> Some e0
-                 in
-                 let mods =
-                   match elem_at elems (S (S O)) with
-                   | Some n ->
-                     (match n with
-                      | NScalar _ -> None
-                      | NArr _ -> None
-                      | NObj _ -> None
-                      | Field (_, _) -> None
-                      | Ident (_, _, _) -> None
-                      | BIdent (_, _, _, _) -> None
-                      | IdName _ -> None
-                      | Str (_, _) -> None
-                      | Num (_, _) -> None
-                      | Bool _ -> None
-                      | Null -> None
-                      | Arr elems3 -> Some (parse_modifiers elems3)
-                      | _ -> None)
-                   | None -> None
-                 in
-                 ((v, argument0), mods)
-               | Hole ->
-                 let argument0 =
-                   match argument with
-                   | Some _ -> argument
-                   | None -> Some e0
-                 in
-                 let mods =
-                   match elem_at elems (S (S O)) with
-                   | Some n ->
-                     (match n with
-                      | NScalar _ -> None
-                      | NArr _ -> None
-                      | NObj _ -> None
-                      | Field (_, _) -> None
-                      | Ident (_, _, _) -> None
-                      | BIdent (_, _, _, _) -> None
-                      | IdName _ -> None
-                      | Str (_, _) -> None
-                      | Num (_, _) -> None
-                      | Bool _ -> None
-                      | Null -> None
-                      | Arr elems3 -> Some (parse_modifiers elems3)
-                      | _ -> None)
-                   | None -> None
-                 in
-                 ((v, argument0), mods)
-               | Obj _ ->
-                 let argument0 =
-                   match argument with
-                   | Some _ -> argument
-                   | None -> Some e0
-                 in
-                 let mods =
-                   match elem_at elems (S (S O)) with
-                   | Some n ->
-                     (match n with
-                      | NScalar _ -> None
-                      | NArr _ -> None
-                      | NObj _ -> None
-                      | Field (_, _) -> None
-                      | Ident (_, _, _) -> None
-                      | BIdent (_, _, _, _) -> None
-                      | IdName _ -> None
-                      | Str (_, _) -> None
-                      | Num (_, _) -> None
-                      | Bool _ -> None
-                      | Null -> None
-                      | Arr elems3 -> Some (parse_modifiers elems3)
-                      | _ -> None)
-                   | None -> None
-                 in
-                 ((v, argument0), mods)
-               | KV (_, _) ->
-                 let argument0 =
-                   match argument with
-                   | Some _ -> argument
-                   | None -> Some e0
-                 in
-                 let mods =
-                   match elem_at elems (S (S O)) with
-                   | Some n ->
-                     (match n with
-                      | NScalar _ -> None
-                      | NArr _ -> None
-                      | NObj _ -> None
-                      | Field (_, _) -> None
-                      | Ident (_, _, _) -> None
-                      | BIdent (_, _, _, _) -> None
-                      | IdName _ -> None
-                      | Str (_, _) -> None
-                      | Num (_, _) -> None
-                      | Bool _ -> None
-                      | Null -> None
-                      | Arr elems3 -> Some (parse_modifiers elems3)
-                      | _ -> None)
-                   | None -> None
-                 in
-                 ((v, argument0), mods)
-               | Computed _ ->
-                 let argument0 =
-                   match argument with
-                   | Some _ -> argument
-                   | None -> Some e0
-                 in
-                 let mods =
-                   match elem_at elems (S (S O)) with
-                   | Some n ->
-                     (match n with
-                      | NScalar _ -> None
-                      | NArr _ -> None
-                      | NObj _ -> None
-                      | Field (_, _) -> None
-                      | Ident (_, _, _) -> None
-                      | BIdent (_, _, _, _) -> None
-                      | IdName _ -> None
-                      | Str (_, _) -> None
-                      | Num (_, _) -> None
-                      | Bool _ -> None
-                      | Null -> None
-                      | Arr elems3 -> Some (parse_modifiers elems3)
-                      | _ -> None)
-                   | None -> None
-                 in
-                 ((v, argument0), mods)
-               | Spread _ ->
-                 let argument0 =
-                   match argument with
-                   | Some _ -> argument
-                   | None -> Some e0
-                 in
-                 let mods =
-                   match elem_at elems (S (S O)) with
-                   | Some n ->
-                     (match n with
-                      | NScalar _ -> None
-                      | NArr _ -> None
-                      | NObj _ -> None
-                      | Field (_, _) -> None
-                      | Ident (_, _, _) -> None
-                      | BIdent (_, _, _, _) -> None
-                      | IdName _ -> None
-                      | Str (_, _) -> None
-                      | Num (_, _) -> None
-                      | Bool _ -> None
-                      | Null -> None
-                      | Arr elems3 -> Some (parse_modifiers elems3)
-                      | _ -> None)
-                   | None -> None
-                 in
-                 ((v, argument0), mods)
-               | Call (_, _, _, _, _) ->
-                 let argument0 =
-                   match argument with
-                   | Some _ -> argument
-                   | None -> Some e0
-                 in
-                 let mods =
-                   match elem_at elems (S (S O)) with
-                   | Some n ->
-                     (match n with
-                      | NScalar _ -> None
-                      | NArr _ -> None
-                      | NObj _ -> None
-                      | Field (_, _) -> None
-                      | Ident (_, _, _) -> None
-                      | BIdent (_, _, _, _) -> None
-                      | IdName _ -> None
-                      | Str (_, _) -> None
-                      | Num (_, _) -> None
-                      | Bool _ -> None
-                      | Null -> None
-                      | Arr elems3 -> Some (parse_modifiers elems3)
-                      | _ -> None)
-                   | None -> None
-                 in
-                 ((v, argument0), mods)
-               | Arrow (_, _, _, _, _, _, _) ->
-                 let argument0 =
-                   match argument with
-                   | Some _ -> argument
-                   | None -> Some e0
-                 in
-                 let mods =
-                   match elem_at elems (S (S O)) with
-                   | Some n ->
-                     (match n with
-                      | NScalar _ -> None
-                      | NArr _ -> None
-                      | NObj _ -> None
-                      | Field (_, _) -> None
-                      | Ident (_, _, _) -> None
-                      | BIdent (_, _, _, _) -> None
-                      | IdName _ -> None
-                      | Str (_, _) -> None
-                      | Num (_, _) -> None
-                      | Bool _ -> None
-                      | Null -> None
-                      | Arr elems3 -> Some (parse_modifiers elems3)
-                      | _ -> None)
-                   | None -> None
-                 in
-                 ((v, argument0), mods)
-               | Assign (_, _, _) ->
-                 let argument0 =
-                   match argument with
-                   | Some _ -> argument
-                   | None -> Some e0
-                 in
-                 let mods =
-                   match elem_at elems (S (S O)) with
-                   | Some n ->
-                     (match n with
-                      | NScalar _ -> None
-                      | NArr _ -> None
-                      | NObj _ -> None
-                      | Field (_, _) -> None
-                      | Ident (_, _, _) -> None
-                      | BIdent (_, _, _, _) -> None
-                      | IdName _ -> None
-                      | Str (_, _) -> None
-                      | Num (_, _) -> None
-                      | Bool _ -> None
-                      | Null -> None
-                      | Arr elems3 -> Some (parse_modifiers elems3)
-                      | _ -> None)
-                   | None -> None
-                 in
-                 ((v, argument0), mods)
-               | Paren _ ->
-                 let argument0 =
-                   match argument with
-                   | Some _ -> argument
-                   | None -> Some e0
-                 in
-                 let mods =
-                   match elem_at elems (S (S O)) with
-                   | Some n ->
-                     (match n with
-                      | NScalar _ -> None
-                      | NArr _ -> None
-                      | NObj _ -> None
-                      | Field (_, _) -> None
-                      | Ident (_, _, _) -> None
-                      | BIdent (_, _, _, _) -> None
-                      | IdName _ -> None
-                      | Str (_, _) -> None
-                      | Num (_, _) -> None
-                      | Bool _ -> None
-                      | Null -> None
-                      | Arr elems3 -> Some (parse_modifiers elems3)
-                      | _ -> None)
-                   | None -> None
-                 in
-                 ((v, argument0), mods)
-               | Cond (_, _, _) ->
-                 let argument0 =
-                   match argument with
-                   | Some _ -> argument
-                   | None -> Some e0
-                 in
-                 let mods =
-                   match elem_at elems (S (S O)) with
-                   | Some n ->
-                     (match n with
-                      | NScalar _ -> None
-                      | NArr _ -> None
-                      | NObj _ -> None
-                      | Field (_, _) -> None
-                      | Ident (_, _, _) -> None
-                      | BIdent (_, _, _, _) -> None
-                      | IdName _ -> None
-                      | Str (_, _) -> None
-                      | Num (_, _) -> None
-                      | Bool _ -> None
-                      | Null -> None
-                      | Arr elems3 -> Some (parse_modifiers elems3)
-                      | _ -> None)
-                   | None -> None
-                 in
-                 ((v, argument0), mods)
-               | Bin (_, _, _) ->
-                 let argument0 =
-                   match argument with
-                   | Some _ -> argument
-                   | None -> Some e0
-                 in
-                 let mods =
-                   match elem_at elems (S (S O)) with
-                   | Some n ->
-                     (match n with
-                      | NScalar _ -> None
-                      | NArr _ -> None
-                      | NObj _ -> None
-                      | Field (_, _) -> None
-                      | Ident (_, _, _) -> None
-                      | BIdent (_, _, _, _) -> None
-                      | IdName _ -> None
-                      | Str (_, _) -> None
-                      | Num (_, _) -> None
-                      | Bool _ -> None
-                      | Null -> None
-                      | Arr elems3 -> Some (parse_modifiers elems3)
-                      | _ -> None)
-                   | None -> None
-                 in
-                 ((v, argument0), mods)
-               | Unary (_, _) ->
-                 let argument0 =
-                   match argument with
-                   | Some _ -> argument
-                   | None -> Some e0
-                 in
-                 let mods =
-                   match elem_at elems (S (S O)) with
-                   | Some n ->
-                     (match n with
-                      | NScalar _ -> None
-                      | NArr _ -> None
-                      | NObj _ -> None
-                      | Field (_, _) -> None
-                      | Ident (_, _, _) -> None
-                      | BIdent (_, _, _, _) -> None
-                      | IdName _ -> None
-                      | Str (_, _) -> None
-                      | Num (_, _) -> None
-                      | Bool _ -> None
-                      | Null -> None
-                      | Arr elems3 -> Some (parse_modifiers elems3)
-                      | _ -> None)
-                   | None -> None
-                 in
-                 ((v, argument0), mods)
-               | Member (_, _) ->
-                 let argument0 =
-                   match argument with
-                   | Some _ -> argument
-                   | None -> Some e0
-                 in
-                 let mods =
-                   match elem_at elems (S (S O)) with
-                   | Some n ->
-                     (match n with
-                      | NScalar _ -> None
-                      | NArr _ -> None
-                      | NObj _ -> None
-                      | Field (_, _) -> None
-                      | Ident (_, _, _) -> None
-                      | BIdent (_, _, _, _) -> None
-                      | IdName _ -> None
-                      | Str (_, _) -> None
-                      | Num (_, _) -> None
-                      | Bool _ -> None
-                      | Null -> None
-                      | Arr elems3 -> Some (parse_modifiers elems3)
-                      | _ -> None)
-                   | None -> None
-                 in
-                 ((v, argument0), mods)
-               | Block (_, _) ->
-                 let argument0 =
-                   match argument with
-                   | Some _ -> argument
-                   | None -> Some e0
-                 in
-                 let mods =
-                   match elem_at elems (S (S O)) with
-                   | Some n ->
-                     (match n with
-                      | NScalar _ -> None
-                      | NArr _ -> None
-                      | NObj _ -> None
-                      | Field (_, _) -> None
-                      | Ident (_, _, _) -> None
-                      | BIdent (_, _, _, _) -> None
-                      | IdName _ -> None
-                      | Str (_, _) -> None
-                      | Num (_, _) -> None
-                      | Bool _ -> None
-                      | Null -> None
-                      | Arr elems3 -> Some (parse_modifiers elems3)
-                      | _ -> None)
-                   | None -> None
-                 in
-                 ((v, argument0), mods)
-               | JsxE (_, _, _, _, _, _) ->
-                 let argument0 =
-                   match argument with
-                   | Some _ -> argument
-                   | None -> Some e0
-                 in
-                 let mods =
-                   match elem_at elems (S (S O)) with
-                   | Some n ->
-                     (match n with
-                      | NScalar _ -> None
-                      | NArr _ -> None
-                      | NObj _ -> None
-                      | Field (_, _) -> None
-                      | Ident (_, _, _) -> None
-                      | BIdent (_, _, _, _) -> None
-                      | IdName _ -> None
-                      | Str (_, _) -> None
-                      | Num (_, _) -> None
-                      | Bool _ -> None
-                      | Null -> None
-                      | Arr elems3 -> Some (parse_modifiers elems3)
-                      | _ -> None)
-                   | None -> None
-                 in
-                 ((v, argument0), mods)
-               | JsxF _ ->
-                 let argument0 =
-                   match argument with
-                   | Some _ -> argument
-                   | None -> Some e0
-                 in
-                 let mods =
-                   match elem_at elems (S (S O)) with
-                   | Some n ->
-                     (match n with
-                      | NScalar _ -> None
-                      | NArr _ -> None
-                      | NObj _ -> None
-                      | Field (_, _) -> None
-                      | Ident (_, _, _) -> None
-                      | BIdent (_, _, _, _) -> None
-                      | IdName _ -> None
-                      | Str (_, _) -> None
-                      | Num (_, _) -> None
-                      | Bool _ -> None
-                      | Null -> None
-                      | Arr elems3 -> Some (parse_modifiers elems3)
-                      | _ -> None)
-                   | None -> None
-                 in
-                 ((v, argument0), mods)
-               | JAttr (_, _) ->
-                 let argument0 =
-                   match argument with
-                   | Some _ -> argument
-                   | None -> Some e0
-                 in
-                 let mods =
-                   match elem_at elems (S (S O)) with
-                   | Some n ->
-                     (match n with
-                      | NScalar _ -> None
-                      | NArr _ -> None
-                      | NObj _ -> None
-                      | Field (_, _) -> None
-                      | Ident (_, _, _) -> None
-                      | BIdent (_, _, _, _) -> None
-                      | IdName _ -> None
-                      | Str (_, _) -> None
-                      | Num (_, _) -> None
-                      | Bool _ -> None
-                      | Null -> None
-                      | Arr elems3 -> Some (parse_modifiers elems3)
-                      | _ -> None)
-                   | None -> None
-                 in
-                 ((v, argument0), mods)
-               | JNs (_, _) ->
-                 let argument0 =
-                   match argument with
-                   | Some _ -> argument
-                   | None -> Some e0
-                 in
-                 let mods =
-                   match elem_at elems (S (S O)) with
-                   | Some n ->
-                     (match n with
-                      | NScalar _ -> None
-                      | NArr _ -> None
-                      | NObj _ -> None
-                      | Field (_, _) -> None
-                      | Ident (_, _, _) -> None
-                      | BIdent (_, _, _, _) -> None
-                      | IdName _ -> None
-                      | Str (_, _) -> None
-                      | Num (_, _) -> None
-                      | Bool _ -> None
-                      | Null -> None
-                      | Arr elems3 -> Some (parse_modifiers elems3)
-                      | _ -> None)
-                   | None -> None
-                 in
-                 ((v, argument0), mods)
-               | JExprC _ ->
-                 let argument0 =
-                   match argument with
-                   | Some _ -> argument
-                   | None -> Some e0
-                 in
-                 let mods =
-                   match elem_at elems (S (S O)) with
-                   | Some n ->
-                     (match n with
-                      | NScalar _ -> None
-                      | NArr _ -> None
-                      | NObj _ -> None
-                      | Field (_, _) -> None
-                      | Ident (_, _, _) -> None
-                      | BIdent (_, _, _, _) -> None
-                      | IdName _ -> None
-                      | Str (_, _) -> None
-                      | Num (_, _) -> None
-                      | Bool _ -> None
-                      | Null -> None
-                      | Arr elems3 -> Some (parse_modifiers elems3)
-                      | _ -> None)
-                   | None -> None
-                 in
-                 ((v, argument0), mods)
-               | JEmpty ->
-                 let argument0 =
-                   match argument with
-                   | Some _ -> argument
-                   | None -> Some e0
-                 in
-                 let mods =
-                   match elem_at elems (S (S O)) with
-                   | Some n ->
-                     (match n with
-                      | NScalar _ -> None
-                      | NArr _ -> None
-                      | NObj _ -> None
-                      | Field (_, _) -> None
-                      | Ident (_, _, _) -> None
-                      | BIdent (_, _, _, _) -> None
-                      | IdName _ -> None
-                      | Str (_, _) -> None
-                      | Num (_, _) -> None
-                      | Bool _ -> None
-                      | Null -> None
-                      | Arr elems3 -> Some (parse_modifiers elems3)
-                      | _ -> None)
-                   | None -> None
-                 in
-                 ((v, argument0), mods)
-               | JText (_, _) ->
-                 let argument0 =
-                   match argument with
-                   | Some _ -> argument
-                   | None -> Some e0
-                 in
-                 let mods =
-                   match elem_at elems (S (S O)) with
-                   | Some n ->
-                     (match n with
-                      | NScalar _ -> None
-                      | NArr _ -> None
-                      | NObj _ -> None
-                      | Field (_, _) -> None
-                      | Ident (_, _, _) -> None
-                      | BIdent (_, _, _, _) -> None
-                      | IdName _ -> None
-                      | Str (_, _) -> None
-                      | Num (_, _) -> None
-                      | Bool _ -> None
-                      | Null -> None
-                      | Arr elems3 -> Some (parse_modifiers elems3)
-                      | _ -> None)
-                   | None -> None
-                 in
-                 ((v, argument0), mods)
-               | JSpreadChild _ ->
-                 let argument0 =
-                   match argument with
-                   | Some _ -> argument
-                   | None -> Some e0
-                 in
-                 let mods =
-                   match elem_at elems (S (S O)) with
-                   | Some n ->
-                     (match n with
-                      | NScalar _ -> None
-                      | NArr _ -> None
-                      | NObj _ -> None
-                      | Field (_, _) -> None
-                      | Ident (_, _, _) -> None
-                      | BIdent (_, _, _, _) -> None
-                      | IdName _ -> None
-                      | Str (_, _) -> None
-                      | Num (_, _) -> None
-                      | Bool _ -> None
-                      | Null -> None
-                      | Arr elems3 -> Some (parse_modifiers elems3)
-                      | _ -> None)
-                   | None -> None
-                 in
-                 ((v, argument0), mods))
-            | None ->
-              let argument0 =
-                if is_component
-                then (match argument with
-                      | Some _ -> argument
-                      | None -> Some Null)
-                else argument
-              in
-              ((v, argument0), (Some (set_of_list splitted))))
-         | _ -> ((empty_ident, argument), (Some (set_of_list splitted)))
-       in
-       let (value', argument0) = p in
-       ((DVModel (argument0,
-       (if (&&) (negb is_component) (nonempty_mods modifiers)
-        then or_void0 argument0
-        else argument0),
-       (match modifiers with
-        | Some m -> transform_modifiers m is_component
-        | None -> None), value')), s1)
-     | _ ->
-       let s0 =
-         match e with
-         | Arr elems ->
-           (match elems with
-            | [] ->
-              add_diag (String ((Ascii (false, false, true, false, true,
-                false, true, false)), (String ((Ascii (false, false, false,
-                true, false, true, true, false)), (String ((Ascii (true,
-                false, true, false, false, true, true, false)), (String
-                ((Ascii (false, false, false, false, false, true, false,
-                false)), (String ((Ascii (false, true, true, false, false,
-                true, true, false)), (String ((Ascii (true, false, false,
-                true, false, true, true, false)), (String ((Ascii (false,
-                true, false, false, true, true, true, false)), (String
-                ((Ascii (true, true, false, false, true, true, true, false)),
-                (String ((Ascii (false, false, true, false, true, true, true,
-                false)), (String ((Ascii (false, false, false, false, false,
-                true, false, false)), (String ((Ascii (true, false, true,
-                false, false, true, true, false)), (String ((Ascii (false,
-                false, true, true, false, true, true, false)), (String
-                ((Ascii (true, false, true, false, false, true, true,
-                false)), (String ((Ascii (true, false, true, true, false,
-                true, true, false)), (String ((Ascii (true, false, true,
-                false, false, true, true, false)), (String ((Ascii (false,
-                true, true, true, false, true, true, false)), (String ((Ascii
-                (false, false, true, false, true, true, true, false)),
-                (String ((Ascii (false, false, false, false, false, true,
-                false, false)), (String ((Ascii (true, true, true, true,
-                false, true, true, false)), (String ((Ascii (false, true,
-                true, false, false, true, true, false)), (String ((Ascii
-                (false, false, false, false, false, true, false, false)),
-                (String ((Ascii (false, false, false, false, false, true,
-                true, false)), (String ((Ascii (false, true, true, false,
-                true, true, true, false)), (String ((Ascii (true, false,
-                true, true, false, true, false, false)), (String ((Ascii
-                (true, false, true, true, false, true, true, false)), (String
-                ((Ascii (true, true, true, true, false, true, true, false)),
-                (String ((Ascii (false, false, true, false, false, true,
-                true, false)), (String ((Ascii (true, false, true, false,
-                false, true, true, false)), (String ((Ascii (false, false,
-                true, true, false, true, true, false)), (String ((Ascii
-                (false, false, false, false, false, true, true, false)),
-                (String ((Ascii (false, false, false, false, false, true,
-                false, false)), (String ((Ascii (true, false, false, false,
-                false, true, true, false)), (String ((Ascii (false, true,
-                false, false, true, true, true, false)), (String ((Ascii
-                (false, true, false, false, true, true, true, false)),
-                (String ((Ascii (true, false, false, false, false, true,
-                true, false)), (String ((Ascii (true, false, false, true,
-                true, true, true, false)), (String ((Ascii (false, false,
-                false, false, false, true, false, false)), (String ((Ascii
-                (true, false, true, true, false, true, true, false)), (String
-                ((Ascii (true, false, true, false, true, true, true, false)),
-                (String ((Ascii (true, true, false, false, true, true, true,
-                false)), (String ((Ascii (false, false, true, false, true,
-                true, true, false)), (String ((Ascii (false, false, false,
-                false, false, true, false, false)), (String ((Ascii (false,
-                true, false, false, false, true, true, false)), (String
-                ((Ascii (true, false, true, false, false, true, true,
-                false)), (String ((Ascii (false, false, false, false, false,
-                true, false, false)), (String ((Ascii (false, false, true,
-                false, true, true, true, false)), (String ((Ascii (false,
-                false, false, true, false, true, true, false)), (String
-                ((Ascii (true, false, true, false, false, true, true,
-                false)), (String ((Ascii (false, false, false, false, false,
-                true, false, false)), (String ((Ascii (false, true, false,
-                false, false, true, true, false)), (String ((Ascii (true,
-                true, true, true, false, true, true, false)), (String ((Ascii
-                (true, false, true, false, true, true, true, false)), (String
-                ((Ascii (false, true, true, true, false, true, true, false)),
-                (String ((Ascii (false, false, true, false, false, true,
-                true, false)), (String ((Ascii (false, false, false, false,
-                false, true, false, false)), (String ((Ascii (true, false,
-                true, false, false, true, true, false)), (String ((Ascii
-                (false, false, false, true, true, true, true, false)),
-                (String ((Ascii (false, false, false, false, true, true,
-                true, false)), (String ((Ascii (false, true, false, false,
-                true, true, true, false)), (String ((Ascii (true, false,
-                true, false, false, true, true, false)), (String ((Ascii
-                (true, true, false, false, true, true, true, false)), (String
-                ((Ascii (true, true, false, false, true, true, true, false)),
-                (String ((Ascii (true, false, false, true, false, true, true,
-                false)), (String ((Ascii (true, true, true, true, false,
-                true, true, false)), (String ((Ascii (false, true, true,
-                true, false, true, true, false)), (String ((Ascii (false,
-                true, true, true, false, true, false, false)),
-                EmptyString))))))))))))))))))))))))))))))))))))))))))))))))))))))))))))))))))))))))))))))))))))))))))))))))))))))))))))))))))))))))))))))))))))
-                s
-            | n :: _ ->
-              (match n with
-               | Elem (spread, _) ->
-                 if spread
-                 then add_diag (String ((Ascii (false, false, true, false,
-                        true, false, true, false)), (String ((Ascii (false,
-                        false, false, true, false, true, true, false)),
-                        (String ((Ascii (true, false, true, false, false,
-                        true, true, false)), (String ((Ascii (false, false,
-                        false, false, false, true, false, false)), (String
-                        ((Ascii (false, true, true, false, false, true, true,
-                        false)), (String ((Ascii (true, false, false, true,
-                        false, true, true, false)), (String ((Ascii (false,
-                        true, false, false, true, true, true, false)),
-                        (String ((Ascii (true, true, false, false, true,
-                        true, true, false)), (String ((Ascii (false, false,
-                        true, false, true, true, true, false)), (String
-                        ((Ascii (false, false, false, false, false, true,
-                        false, false)), (String ((Ascii (true, false, true,
-                        false, false, true, true, false)), (String ((Ascii
-                        (false, false, true, true, false, true, true,
-                        false)), (String ((Ascii (true, false, true, false,
-                        false, true, true, false)), (String ((Ascii (true,
-                        false, true, true, false, true, true, false)),
-                        (String ((Ascii (true, false, true, false, false,
-                        true, true, false)), (String ((Ascii (false, true,
-                        true, true, false, true, true, false)), (String
-                        ((Ascii (false, false, true, false, true, true, true,
-                        false)), (String ((Ascii (false, false, false, false,
-                        false, true, false, false)), (String ((Ascii (true,
-                        true, true, true, false, true, true, false)), (String
-                        ((Ascii (false, true, true, false, false, true, true,
-                        false)), (String ((Ascii (false, false, false, false,
-                        false, true, false, false)), (String ((Ascii (false,
-                        false, false, false, false, true, true, false)),
-                        (String ((Ascii (false, true, true, false, true,
-                        true, true, false)), (String ((Ascii (true, false,
-                        true, true, false, true, false, false)), (String
-                        ((Ascii (true, false, true, true, false, true, true,
-                        false)), (String ((Ascii (true, true, true, true,
-                        false, true, true, false)), (String ((Ascii (false,
-                        false, true, false, false, true, true, false)),
-                        (String ((Ascii (true, false, true, false, false,
-                        true, true, false)), (String ((Ascii (false, false,
-                        true, true, false, true, true, false)), (String
-                        ((Ascii (false, false, false, false, false, true,
-                        true, false)), (String ((Ascii (false, false, false,
-                        false, false, true, false, false)), (String ((Ascii
-                        (true, false, false, false, false, true, true,
-                        false)), (String ((Ascii (false, true, false, false,
-                        true, true, true, false)), (String ((Ascii (false,
-                        true, false, false, true, true, true, false)),
-                        (String ((Ascii (true, false, false, false, false,
-                        true, true, false)), (String ((Ascii (true, false,
-                        false, true, true, true, true, false)), (String
-                        ((Ascii (false, false, false, false, false, true,
-                        false, false)), (String ((Ascii (true, false, true,
-                        true, false, true, true, false)), (String ((Ascii
-                        (true, false, true, false, true, true, true, false)),
-                        (String ((Ascii (true, true, false, false, true,
-                        true, true, false)), (String ((Ascii (false, false,
-                        true, false, true, true, true, false)), (String
-                        ((Ascii (false, false, false, false, false, true,
-                        false, false)), (String ((Ascii (false, true, false,
-                        false, false, true, true, false)), (String ((Ascii
-                        (true, false, true, false, false, true, true,
-                        false)), (String ((Ascii (false, false, false, false,
-                        false, true, false, false)), (String ((Ascii (false,
-                        false, true, false, true, true, true, false)),
-                        (String ((Ascii (false, false, false, true, false,
-                        true, true, false)), (String ((Ascii (true, false,
-                        true, false, false, true, true, false)), (String
-                        ((Ascii (false, false, false, false, false, true,
-                        false, false)), (String ((Ascii (false, true, false,
-                        false, false, true, true, false)), (String ((Ascii
-                        (true, true, true, true, false, true, true, false)),
-                        (String ((Ascii (true, false, true, false, true,
-                        true, true, false)), (String ((Ascii (false, true,
-                        true, true, false, true, true, false)), (String
-                        ((Ascii (false, false, true, false, false, true,
-                        true, false)), (String ((Ascii (false, false, false,
-                        false, false, true, false, false)), (String ((Ascii
-                        (true, false, true, false, false, true, true,
-                        false)), (String ((Ascii (false, false, false, true,
-                        true, true, true, false)), (String ((Ascii (false,
-                        false, false, false, true, true, true, false)),
-                        (String ((Ascii (false, true, false, false, true,
-                        true, true, false)), (String ((Ascii (true, false,
-                        true, false, false, true, true, false)), (String
-                        ((Ascii (true, true, false, false, true, true, true,
-                        false)), (String ((Ascii (true, true, false, false,
-                        true, true, true, false)), (String ((Ascii (true,
-                        false, false, true, false, true, true, false)),
-                        (String ((Ascii (true, true, true, true, false, true,
-                        true, false)), (String ((Ascii (false, true, true,
-                        true, false, true, true, false)), (String ((Ascii
-                        (false, true, true, true, false, true, false,
-                        false)),
-                        EmptyString))))))))))))))))))))))))))))))))))))))))))))))))))))))))))))))))))))))))))))))))))))))))))))))))))))))))))))))))))))))))))))))))))))
-                        s
-                 else s
-               | _ ->
-                 add_diag (String ((Ascii (false, false, true, false, true,
-                   false, true, false)), (String ((Ascii (false, false,
-                   false, true, false, true, true, false)), (String ((Ascii
-                   (true, false, true, false, false, true, true, false)),
-                   (String ((Ascii (false, false, false, false, false, true,
-                   false, false)), (String ((Ascii (false, true, true, false,
-                   false, true, true, false)), (String ((Ascii (true, false,
-                   false, true, false, true, true, false)), (String ((Ascii
-                   (false, true, false, false, true, true, true, false)),
-                   (String ((Ascii (true, true, false, false, true, true,
-                   true, false)), (String ((Ascii (false, false, true, false,
-                   true, true, true, false)), (String ((Ascii (false, false,
-                   false, false, false, true, false, false)), (String ((Ascii
-                   (true, false, true, false, false, true, true, false)),
-                   (String ((Ascii (false, false, true, true, false, true,
-                   true, false)), (String ((Ascii (true, false, true, false,
-                   false, true, true, false)), (String ((Ascii (true, false,
-                   true, true, false, true, true, false)), (String ((Ascii
-                   (true, false, true, false, false, true, true, false)),
-                   (String ((Ascii (false, true, true, true, false, true,
-                   true, false)), (String ((Ascii (false, false, true, false,
-                   true, true, true, false)), (String ((Ascii (false, false,
-                   false, false, false, true, false, false)), (String ((Ascii
-                   (true, true, true, true, false, true, true, false)),
-                   (String ((Ascii (false, true, true, false, false, true,
-                   true, false)), (String ((Ascii (false, false, false,
-                   false, false, true, false, false)), (String ((Ascii
-                   (false, false, false, false, false, true, true, false)),
-                   (String ((Ascii (false, true, true, false, true, true,
-                   true, false)), (String ((Ascii (true, false, true, true,
-                   false, true, false, false)), (String ((Ascii (true, false,
-                   true, true, false, true, true, false)), (String ((Ascii
-                   (true, true, true, true, false, true, true, false)),
-                   (String ((Ascii (false, false, true, false, false, true,
-                   true, false)), (String ((Ascii (true, false, true, false,
-                   false, true, true, false)), (String ((Ascii (false, false,
-                   true, true, false, true, true, false)), (String ((Ascii
-                   (false, false, false, false, false, true, true, false)),
-                   (String ((Ascii (false, false, false, false, false, true,
-                   false, false)), (String ((Ascii (true, false, false,
-                   false, false, true, true, false)), (String ((Ascii (false,
-                   true, false, false, true, true, true, false)), (String
-                   ((Ascii (false, true, false, false, true, true, true,
-                   false)), (String ((Ascii (true, false, false, false,
-                   false, true, true, false)), (String ((Ascii (true, false,
-                   false, true, true, true, true, false)), (String ((Ascii
-                   (false, false, false, false, false, true, false, false)),
-                   (String ((Ascii (true, false, true, true, false, true,
-                   true, false)), (String ((Ascii (true, false, true, false,
-                   true, true, true, false)), (String ((Ascii (true, true,
-                   false, false, true, true, true, false)), (String ((Ascii
-                   (false, false, true, false, true, true, true, false)),
-                   (String ((Ascii (false, false, false, false, false, true,
-                   false, false)), (String ((Ascii (false, true, false,
-                   false, false, true, true, false)), (String ((Ascii (true,
-                   false, true, false, false, true, true, false)), (String
-                   ((Ascii (false, false, false, false, false, true, false,
-                   false)), (String ((Ascii (false, false, true, false, true,
-                   true, true, false)), (String ((Ascii (false, false, false,
-                   true, false, true, true, false)), (String ((Ascii (true,
-                   false, true, false, false, true, true, false)), (String
-                   ((Ascii (false, false, false, false, false, true, false,
-                   false)), (String ((Ascii (false, true, false, false,
-                   false, true, true, false)), (String ((Ascii (true, true,
-                   true, true, false, true, true, false)), (String ((Ascii
-                   (true, false, true, false, true, true, true, false)),
-                   (String ((Ascii (false, true, true, true, false, true,
-                   true, false)), (String ((Ascii (false, false, true, false,
-                   false, true, true, false)), (String ((Ascii (false, false,
-                   false, false, false, true, false, false)), (String ((Ascii
-                   (true, false, true, false, false, true, true, false)),
-                   (String ((Ascii (false, false, false, true, true, true,
-                   true, false)), (String ((Ascii (false, false, false,
-                   false, true, true, true, false)), (String ((Ascii (false,
-                   true, false, false, true, true, true, false)), (String
-                   ((Ascii (true, false, true, false, false, true, true,
-                   false)), (String ((Ascii (true, true, false, false, true,
-                   true, true, false)), (String ((Ascii (true, true, false,
-                   false, true, true, true, false)), (String ((Ascii (true,
-                   false, false, true, false, true, true, false)), (String
-                   ((Ascii (true, true, true, true, false, true, true,
-                   false)), (String ((Ascii (false, true, true, true, false,
-                   true, true, false)), (String ((Ascii (false, true, true,
-                   true, false, true, false, false)),
-                   EmptyString))))))))))))))))))))))))))))))))))))))))))))))))))))))))))))))))))))))))))))))))))))))))))))))))))))))))))))))))))))))))))))))))))))
-                   s))
-         | _ -> s
-       in
-       let (p, modifiers) =
-         match e with
-         | Arr elems ->
-           let v =
-             match elems with
-             | [] -> empty_ident
-             | n :: _ ->
-               (match n with
-                | Elem (spread, e0) -> if spread then empty_ident else e0
-                | _ -> empty_ident)
-           in
-           (match elem_at elems (S O) with
-            | Some e0 ->
-              (match e0 with
-               | NScalar _ ->
-                 let argument0 =
-                   match argument with
-                   | Some _ -> argument
-                   | None -> Some e0
-                 in
-                 let mods =
-                   match elem_at elems (S (S O)) with
-                   | Some n ->
-                     (match n with
-                      | NScalar _ -> None
-                      | NArr _ -> None
-                      | NObj _ -> None
-                      | Field (_, _) -> None
-                      | Ident (_, _, _) -> None
-                      | BIdent (_, _, _, _) -> None
-                      | IdName _ -> None
-                      | Str (_, _) -> None
-                      | Num (_, _) -> None
-                      | Bool _ -> None
-                      | Null -> None
-                      | Arr elems3 -> Some (parse_modifiers elems3)
-                      | _ -> None)
-                   | None -> None
-                 in
-                 ((v, argument0), mods)
-               | NArr _ ->
-                 let argument0 =
-                   match argument with
-                   | Some _ -> argument
-                   | None -> Some e0
-                 in
-                 let mods =
-                   match elem_at elems (S (S O)) with
-                   | Some n ->
-                     (match n with
-                      | NScalar _ -> None
-                      | NArr _ -> None
-                      | NObj _ -> None
-                      | Field (_, _) -> None
-                      | Ident (_, _, _) -> None
-                      | BIdent (_, _, _, _) -> None
-                      | IdName _ -> None
-                      | Str (_, _) -> None
-                      | Num (_, _) -> None
-                      | Bool _ -> None
-                      | Null -> None
-                      | Arr elems3 -> Some (parse_modifiers elems3)
-                      | _ -> None)
-                   | None -> None
-                 in
-                 ((v, argument0), mods)
-               | NObj _ ->
-                 let argument0 =
-                   match argument with
-                   | Some _ -> argument
-                   | None -> Some e0
-                 in
-                 let mods =
-                   match elem_at elems (S (S O)) with
-                   | Some n ->
-                     (match n with
-                      | NScalar _ -> None
-                      | NArr _ -> None
-                      | NObj _ -> None
-                      | Field (_, _) -> None
-                      | Ident (_, _, _) -> None
-                      | BIdent (_, _, _, _) -> None
-                      | IdName _ -> None
-                      | Str (_, _) -> None
-                      | Num (_, _) -> None
-                      | Bool _ -> None
-                      | Null -> None
-                      | Arr elems3 -> Some (parse_modifiers elems3)
-                      | _ -> None)
-                   | None -> None
-                 in
-                 ((v, argument0), mods)
-               | Field (_, _) ->
-                 let argument0 =
-                   match argument with
-                   | Some _ -> argument
-                   | None -> Some e0
-                 in
-                 let mods =
-                   match elem_at elems (S (S O)) with
-                   | Some n ->
-                     (match n with
-                      | NScalar _ -> None
-                      | NArr _ -> None
-                      | NObj _ -> None
-                      | Field (_, _) -> None
-                      | Ident (_, _, _) -> None
-                      | BIdent (_, _, _, _) -> None
-                      | IdName _ -> None
-                      | Str (_, _) -> None
-                      | Num (_, _) -> None
-                      | Bool _ -> None
-                      | Null -> None
-                      | Arr elems3 -> Some (parse_modifiers elems3)
-                      | _ -> None)
-                   | None -> None
-                 in
-                 ((v, argument0), mods)
-               | Ident (_, _, _) ->
-                 let argument0 =
-                   match argument with
-                   | Some _ -> argument
-                   | None -> Some e0
-                 in
-                 let mods =
-                   match elem_at elems (S (S O)) with
-                   | Some n ->
-                     (match n with
-                      | NScalar _ -> None
-                      | NArr _ -> None
-                      | NObj _ -> None
-                      | Field (_, _) -> None
-                      | Ident (_, _, _) -> None
-                      | BIdent (_, _, _, _) -> None
-                      | IdName _ -> None
-                      | Str (_, _) -> None
-                      | Num (_, _) -> None
-                      | Bool _ -> None
-                      | Null -> None
-                      | Arr elems3 -> Some (parse_modifiers elems3)
-                      | _ -> None)
-                   | None -> None
-                 in
-                 ((v, argument0), mods)
-               | BIdent (_, _, _, _) ->
-                 let argument0 =
-                   match argument with
-                   | Some _ -> argument
-                   | None -> Some e0
-                 in
-                 let mods =
-                   match elem_at elems (S (S O)) with
-                   | Some n ->
-                     (match n with
-                      | NScalar _ -> None
-                      | NArr _ -> None
-                      | NObj _ -> None
-                      | Field (_, _) -> None
-                      | Ident (_, _, _) -> None
-                      | BIdent (_, _, _, _) -> None
-                      | IdName _ -> None
-                      | Str (_, _) -> None
-                      | Num (_, _) -> None
-                      | Bool _ -> None
-                      | Null -> None
-                      | Arr elems3 -> Some (parse_modifiers elems3)
-                      | _ -> None)
-                   | None -> None
-                 in
-                 ((v, argument0), mods)
-               | IdName _ ->
-                 let argument0 =
-                   match argument with
-                   | Some _ -> argument
-                   | None -> Some e0
-                 in
-                 let mods =
-                   match elem_at elems (S (S O)) with
-                   | Some n ->
-                     (match n with
-                      | NScalar _ -> None
-                      | NArr _ -> None
-                      | NObj _ -> None
-                      | Field (_, _) -> None
-                      | Ident (_, _, _) -> None
-                      | BIdent (_, _, _, _) -> None
-                      | IdName _ -> None
-                      | Str (_, _) -> None
-                      | Num (_, _) -> None
-                      | Bool _ -> None
-                      | Null -> None
-                      | Arr elems3 -> Some (parse_modifiers elems3)
-                      | _ -> None)
-                   | None -> None
-                 in
-                 ((v, argument0), mods)
-               | Str (_, _) ->
-                 let argument0 =
-                   match argument with
-                   | Some _ -> argument
-                   | None -> Some e0
-                 in
-                 let mods =
-                   match elem_at elems (S (S O)) with
-                   | Some n ->
-                     (match n with
-                      | NScalar _ -> None
-                      | NArr _ -> None
-                      | NObj _ -> None
-                      | Field (_, _) -> None
-                      | Ident (_, _, _) -> None
-                      | BIdent (_, _, _, _) -> None
-                      | IdName _ -> None
-                      | Str (_, _) -> None
-                      | Num (_, _) -> None
-                      | Bool _ -> None
-                      | Null -> None
-                      | Arr elems3 -> Some (parse_modifiers elems3)
-                      | _ -> None)
-                   | None -> None
-                 in
-                 ((v, argument0), mods)
-               | Num (_, _) ->
-                 let argument0 =
-                   match argument with
-                   | Some _ -> argument
-                   | None -> Some e0
-                 in
-                 let mods =
-                   match elem_at elems (S (S O)) with
-                   | Some n ->
-                     (match n with
-                      | NScalar _ -> None
-                      | NArr _ -> None
-                      | NObj _ -> None
-                      | Field (_, _) -> None
-                      | Ident (_, _, _) -> None
-                      | BIdent (_, _, _, _) -> None
-                      | IdName _ -> None
-                      | Str (_, _) -> None
-                      | Num (_, _) -> None
-                      | Bool _ -> None
-                      | Null -> None
-                      | Arr elems3 -> Some (parse_modifiers elems3)
-                      | _ -> None)
-                   | None -> None
-                 in
-                 ((v, argument0), mods)
-               | Bool _ ->
-                 let argument0 =
-                   match argument with
-                   | Some _ -> argument
-                   | None -> Some e0
-                 in
-                 let mods =
-                   match elem_at elems (S (S O)) with
-                   | Some n ->
-                     (match n with
-                      | NScalar _ -> None
-                      | NArr _ -> None
-                      | NObj _ -> None
-                      | Field (_, _) -> None
-                      | Ident (_, _, _) -> None
-                      | BIdent (_, _, _, _) -> None
-                      | IdName _ -> None
-                      | Str (_, _) -> None
-                      | Num (_, _) -> None
-                      | Bool _ -> None
-                      | Null -> None
-                      | Arr elems3 -> Some (parse_modifiers elems3)
-                      | _ -> None)
-                   | None -> None
-                 in
-                 ((v, argument0), mods)
-               | Null ->
-                 let argument0 =
-                   match argument with
-                   | Some _ -> argument
-                   | None -> Some e0
-                 in
-                 let mods =
-                   match elem_at elems (S (S O)) with
-                   | Some n ->
-                     (match n with
-                      | NScalar _ -> None
-                      | NArr _ -> None
-                      | NObj _ -> None
-                      | Field (_, _) -> None
-                      | Ident (_, _, _) -> None
-                      | BIdent (_, _, _, _) -> None
-                      | IdName _ -> None
-                      | Str (_, _) -> None
-                      | Num (_, _) -> None
-                      | Bool _ -> None
-                      | Null -> None
-                      | Arr elems3 -> Some (parse_modifiers elems3)
-                      | _ -> None)
-                   | None -> None
-                 in
-                 ((v, argument0), mods)
-               | Arr elems2 ->
-                 let argument0 =
-                   if is_component
-                   then (match argument with
-                         | Some _ -> argument
-                         | None -> Some Null)
-                   else argument
-                 in
-                 ((v, argument0), (Some (parse_modifiers elems2)))
-               | Elem (_, _) ->
-                 let argument0 =
-                   match argument with
-                   | Some _ -> argument
-                   | None -> Some e0
-                 in
-                 let mods =
-                   match elem_at elems (S (S O)) with
-                   | Some n ->
-                     (match n with
-                      | NScalar _ -> None
-                      | NArr _ -> None
-                      | NObj _ -> None
-                      | Field (_, _) -> None
-                      | Ident (_, _, _) -> None
-                      | BIdent (_, _, _, _) -> None
-                      | IdName _ -> None
-                      | Str (_, _) -> None
-                      | Num (_, _) -> None
-                      | Bool _ -> None
-                      | Null -> None
-                      | Arr elems3 -> Some (parse_modifiers elems3)
-                      | _ -> None)
-                   | None -> None
-                 in
-                 ((v, argument0), mods)
-               | Hole ->
-                 let argument0 =
-                   match argument with
-                   | Some _ -> argument
-                   | None -> Some e0
-                 in
-                 let mods =
-                   match elem_at elems (S (S O)) with
-                   | Some n ->
-                     (match n with
-                      | NScalar _ -> None
-                      | NArr _ -> None
-                      | NObj _ -> None
-                      | Field (_, _) -> None
-                      | Ident (_, _, _) -> None
-                      | BIdent (_, _, _, _) -> None
-                      | IdName _ -> None
-                      | Str (_, _) -> None
-                      | Num (_, _) -> None
-                      | Bool _ -> None
-                      | Null -> None
-                      | Arr elems3 -> Some (parse_modifiers elems3)
-                      | _ -> None)
-                   | None -> None
-                 in
-                 ((v, argument0), mods)
-               | Obj _ ->
-                 let argument0 =
-                   match argument with
-                   | Some _ -> argument
-                   | None -> Some e0
-                 in
-                 let mods =
-                   match elem_at elems (S (S O)) with
-                   | Some n ->
-                     (match n with
-                      | NScalar _ -> None
-                      | NArr _ -> None
-                      | NObj _ -> None
-                      | Field (_, _) -> None
-                      | Ident (_, _, _) -> None
-                      | BIdent (_, _, _, _) -> None
-                      | IdName _ -> None
-                      | Str (_, _) -> None
-                      | Num (_, _) -> None
-                      | Bool _ -> None
-                      | Null -> None
-                      | Arr elems3 -> Some (parse_modifiers elems3)
-                      | _ -> None)
-                   | None -> None
-                 in
-                 ((v, argument0), mods)
-               | KV (_, _) ->
-                 let argument0 =
-                   match argument with
-                   | Some _ -> argument
-                   | None -> Some e0
-                 in
-                 let mods =
-                   match elem_at elems (S (S O)) with
-                   | Some n ->
-                     (match n with
-                      | NScalar _ -> None
-                      | NArr _ -> None
-                      | NObj _ -> None
-                      | Field (_, _) -> None
-                      | Ident (_, _, _) -> None
-                      | BIdent (_, _, _, _) -> None
-                      | IdName _ -> None
-                      | Str (_, _) -> None
-                      | Num (_, _) -> None
-                      | Bool _ -> None
-                      | Null -> None
-                      | Arr elems3 -> Some (parse_modifiers elems3)
-                      | _ -> None)
-                   | None -> None
-                 in
-                 ((v, argument0), mods)
-               | Computed _ ->
-                 let argument0 =
-                   match argument with
-                   | Some _ -> argument
-                   | None -> Some e0
-                 in
-                 let mods =
-                   match elem_at elems (S (S O)) with
-                   | Some n ->
-                     (match n with
-                      | NScalar _ -> None
-                      | NArr _ -> None
-                      | NObj _ -> None
-                      | Field (_, _) -> None
-                      | Ident (_, _, _) -> None
-                      | BIdent (_, _, _, _) -> None
-                      | IdName _ -> None
-                      | Str (_, _) -> None
-                      | Num (_, _) -> None
-                      | Bool _ -> None
-                      | Null -> None
-                      | Arr elems3 -> Some (parse_modifiers elems3)
-                      | _ -> None)
-                   | None -> None
-                 in
-                 ((v, argument0), mods)
-               | Spread _ ->
-                 let argument0 =
-                   match argument with
-                   | Some _ -> argument
-                   | None -> Some e0
-                 in
-                 let mods =
-                   match elem_at elems (S (S O)) with
-                   | Some n ->
-                     (match n with
-                      | NScalar _ -> None
-                      | NArr _ -> None
-                      | NObj _ -> None
-                      | Field (_, _) -> None
-                      | Ident (_, _, _) -> None
-                      | BIdent (_, _, _, _) -> None
-                      | IdName _ -> None
-                      | Str (_, _) -> None
-                      | Num (_, _) -> None
-                      | Bool _ -> None
-                      | Null -> None
-                      | Arr elems3 -> Some (parse_modifiers elems3)
-                      | _ -> None)
-                   | None -> None
-                 in
-                 ((v, argument0), mods)
-               | Call (_, _, _, _, _) ->
-                 let argument0 =
-                   match argument with
-                   | Some _ -> argument
-                   | None -> Some e0
-                 in
-                 let mods =
-                   match elem_at elems (S (S O)) with
-                   | Some n ->
-                     (match n with
-                      | NScalar _ -> None
-                      | NArr _ -> None
-                      | NObj _ -> None
-                      | Field (_, _) -> None
-                      | Ident (_, _, _) -> None
-                      | BIdent (_, _, _, _) -> None
-                      | IdName _ -> None
-                      | Str (_, _) -> None
-                      | Num (_, _) -> None
-                      | Bool _ -> None
-                      | Null -> None
-                      | Arr elems3 -> Some (parse_modifiers elems3)
-                      | _ -> None)
-                   | None -> None
-                 in
-                 ((v, argument0), mods)
-               | Arrow (_, _, _, _, _, _, _) ->
-                 let argument0 =
-                   match argument with
-                   | Some _ -> argument
-                   | None -> Some e0
-                 in
-                 let mods =
-                   match elem_at elems (S (S O)) with
-                   | Some n ->
-                     (match n with
-                      | NScalar _ -> None
-                      | NArr _ -> None
-                      | NObj _ -> None
-                      | Field (_, _) -> None
-                      | Ident (_, _, _) -> None
-                      | BIdent (_, _, _, _) -> None
-                      | IdName _ -> None
-                      | Str (_, _) -> None
-                      | Num (_, _) -> None
-                      | Bool _ -> None
-                      | Null -> None
-                      | Arr elems3 -> Some (parse_modifiers elems3)
-                      | _ -> None)
-                   | None -> None
-                 in
-                 ((v, argument0), mods)
-               | Assign (_, _, _) ->
-                 let argument0 =
-                   match argument with
-                   | Some _ -> argument
-                   | None -> Some e0
-                 in
-                 let mods =
-                   match elem_at elems (S (S O)) with
-                   | Some n ->
-                     (match n with
-                      | NScalar _ -> None
-                      | NArr _ -> None
-                      | NObj _ -> None
-                      | Field (_, _) -> None
-                      | Ident (_, _, _) -> None
-                      | BIdent (_, _, _, _) -> None
-                      | IdName _ -> None
-                      | Str (_, _) -> None
-                      | Num (_, _) -> None
-                      | Bool _ -> None
-                      | Null -> None
-                      | Arr elems3 -> Some (parse_modifiers elems3)
-                      | _ -> None)
-                   | None -> None
-                 in
-                 ((v, argument0), mods)
-               | Paren _ ->
-                 let argument0 =
-                   match argument with
-                   | Some _ -> argument
-                   | None -> Some e0
-                 in
-                 let mods =
-                   match elem_at elems (S (S O)) with
-                   | Some n ->
-                     (match n with
-                      | NScalar _ -> None
-                      | NArr _ -> None
-                      | NObj _ -> None
-                      | Field (_, _) -> None
-                      | Ident (_, _, _) -> None
-                      | BIdent (_, _, _, _) -> None
-                      | IdName _ -> None
-                      | Str (_, _) -> None
-                      | Num (_, _) -> None
-                      | Bool _ -> None
-                      | Null -> None
-                      | Arr elems3 -> Some (parse_modifiers elems3)
-                      | _ -> None)
-                   | None -> None
-                 in
-                 ((v, argument0), mods)
-               | Cond (_, _, _) ->
-                 let argument0 =
-                   match argument with
-                   | Some _ -> argument
-                   | None -> Some e0
-                 in
-                 let mods =
-                   match elem_at elems (S (S O)) with
-                   | Some n ->
-                     (match n with
-                      | NScalar _ -> None
-                      | NArr _ -> None
-                      | NObj _ -> None
-                      | Field (_, _) -> None
-                      | Ident (_, _, _) -> None
-                      | BIdent (_, _, _, _) -> None
-                      | IdName _ -> None
-                      | Str (_, _) -> None
-                      | Num (_, _) -> None
-                      | Bool _ -> None
-                      | Null -> None
-                      | Arr elems3 -> Some (parse_modifiers elems3)
-                      | _ -> None)
-                   | None -> None
-                 in
-                 ((v, argument0), mods)
-               | Bin (_, _, _) ->
-                 let argument0 =
-                   match argument with
-                   | Some _ -> argument
-                   | None -> Some e0
-                 in
-                 let mods =
-                   match elem_at elems (S (S O)) with
-                   | Some n ->
-                     (match n with
-                      | NScalar _ -> None
-                      | NArr _ -> None
-                      | NObj _ -> None
-                      | Field (_, _) -> None
-                      | Ident (_, _, _) -> None
-                      | BIdent (_, _, _, _) -> None
-                      | IdName _ -> None
-                      | Str (_, _) -> None
-                      | Num (_, _) -> None
-                      | Bool _ -> None
-                      | Null -> None
-                      | Arr elems3 -> Some (parse_modifiers elems3)
-                      | _ -> None)
-                   | None -> None
-                 in
-                 ((v, argument0), mods)
-               | Unary (_, _) ->
-                 let argument0 =
-                   match argument with
-                   | Some _ -> argument
-                   | None -> Some e0
-                 in
-                 let mods =
-                   match elem_at elems (S (S O)) with
-                   | Some n ->
-                     (match n with
-                      | NScalar _ -> None
-                      | NArr _ -> None
-                      | NObj _ -> None
-                      | Field (_, _) -> None
-                      | Ident (_, _, _) -> None
-                      | BIdent (_, _, _, _) -> None
-                      | IdName _ -> None
-                      | Str (_, _) -> None
-                      | Num (_, _) -> None
-                      | Bool _ -> None
-                      | Null -> None
-                      | Arr elems3 -> Some (parse_modifiers elems3)
-                      | _ -> None)
-                   | None -> None
-                 in
-                 ((v, argument0), mods)
-               | Member (_, _) ->
-                 let argument0 =
-                   match argument with
-                   | Some _ -> argument
-                   | None -> Some e0
-                 in
-                 let mods =
-                   match elem_at elems (S (S O)) with
-                   | Some n ->
-                     (match n with
-                      | NScalar _ -> None
-                      | NArr _ -> None
-                      | NObj _ -> None
-                      | Field (_, _) -> None
-                      | Ident (_, _, _) -> None
-                      | BIdent (_, _, _, _) -> None
-                      | IdName _ -> None
-                      | Str (_, _) -> None
-                      | Num (_, _) -> None
-                      | Bool _ -> None
-                      | Null -> None
-                      | Arr elems3 -> Some (parse_modifiers elems3)
-                      | _ -> None)
-                   | None -> None
-                 in
-                 ((v, argument0), mods)
-               | Block (_, _) ->
-                 let argument0 =
-                   match argument with
-                   | Some _ -> argument
-                   | None -> Some e0
-                 in
-                 let mods =
-                   match elem_at elems (S (S O)) with
-                   | Some n ->
-                     (match n with
-                      | NScalar _ -> None
-                      | NArr _ -> None
-                      | NObj _ -> None
-                      | Field (_, _) -> None
-                      | Ident (_, _, _) -> None
-                      | BIdent (_, _, _, _) -> None
-                      | IdName _ -> None
-                      | Str (_, _) -> None
-                      | Num (_, _) -> None
-                      | Bool _ -> None
-                      | Null -> None
-                      | Arr elems3 -> Some (parse_modifiers elems3)
-                      | _ -> None)
-                   | None -> None
-                 in
-                 ((v, argument0), mods)
-               | JsxE (_, _, _, _, _, _) ->
-                 let argument0 =
-                   match argument with
-                   | Some _ -> argument
-                   | None -> Some e0
-                 in
-                 let mods =
-                   match elem_at elems (S (S O)) with
-                   | Some n ->
-                     (match n with
-                      | NScalar _ -> None
-                      | NArr _ -> None
-                      | NObj _ -> None
-                      | Field (_, _) -> None
-                      | Ident (_, _, _) -> None
-                      | BIdent (_, _, _, _) -> None
-                      | IdName _ -> None
-                      | Str (_, _) -> None
-                      | Num (_, _) -> None
-                      | Bool _ -> None
-                      | Null -> None
-                      | Arr elems3 -> Some (parse_modifiers elems3)
-                      | _ -> None)
-                   | None -> None
-                 in
-                 ((v, argument0), mods)
-               | JsxF _ ->
-                 let argument0 =
-                   match argument with
-                   | Some _ -> argument
-                   | None -> Some e0
-                 in
-                 let mods =
-                   match elem_at elems (S (S O)) with
-                   | Some n ->
-                     (match n with
-                      | NScalar _ -> None
-                      | NArr _ -> None
-                      | NObj _ -> None
-                      | Field (_, _) -> None
-                      | Ident (_, _, _) -> None
-                      | BIdent (_, _, _, _) -> None
-                      | IdName _ -> None
-                      | Str (_, _) -> None
-                      | Num (_, _) -> None
-                      | Bool _ -> None
-                      | Null -> None
-                      | Arr elems3 -> Some (parse_modifiers elems3)
-                      | _ -> None)
-                   | None -> None
-                 in
-                 ((v, argument0), mods)
-               | JAttr (_, _) ->
-                 let argument0 =
-                   match argument with
-                   | Some _ -> argument
-                   | None -> Some e0
-                 in
-                 let mods =
-                   match elem_at elems (S (S O)) with
-                   | Some n ->
-                     (match n with
-                      | NScalar _ -> None
-                      | NArr _ -> None
-                      | NObj _ -> None
-                      | Field (_, _) -> None
-                      | Ident (_, _, _) -> None
-                      | BIdent (_, _, _, _) -> None
-                      | IdName _ -> None
-                      | Str (_, _) -> None
-                      | Num (_, _) -> None
-                      | Bool _ -> None
-                      | Null -> None
-                      | Arr elems3 -> Some (parse_modifiers elems3)
-                      | _ -> None)
-                   | None -> None
-                 in
-                 ((v, argument0), mods)
-               | JNs (_, _) ->
-                 let argument0 =
-                   match argument with
-                   | Some _ -> argument
-                   | None -> Some e0
-                 in
-                 let mods =
-                   match elem_at elems (S (S O)) with
-                   | Some n ->
-                     (match n with
-                      | NScalar _ -> None
-                      | NArr _ -> None
-                      | NObj _ -> None
-                      | Field (_, _) -> None
-                      | Ident (_, _, _) -> None
-                      | BIdent (_, _, _, _) -> None
-                      | IdName _ -> None
-                      | Str (_, _) -> None
-                      | Num (_, _) -> None
-                      | Bool _ -> None
-                      | Null -> None
-                      | Arr elems3 -> Some (parse_modifiers elems3)
-                      | _ -> None)
-                   | None -> None
-                 in
-                 ((v, argument0), mods)
-               | JExprC _ ->
-                 let argument0 =
-                   match argument with
-                   | Some _ -> argument
-                   | None -> Some e0
-                 in
-                 let mods =
-                   match elem_at elems (S (S O)) with
-                   | Some n ->
-                     (match n with
-                      | NScalar _ -> None
-                      | NArr _ -> None
-                      | NObj _ -> None
-                      | Field (_, _) -> None
-                      | Ident (_, _, _) -> None
-                      | BIdent (_, _, _, _) -> None
-                      | IdName _ -> None
-                      | Str (_, _) -> None
-                      | Num (_, _) -> None
-                      | Bool _ -> None
-                      | Null -> None
-                      | Arr elems3 -> Some (parse_modifiers elems3)
-                      | _ -> None)
-                   | None -> None
-                 in
-                 ((v, argument0), mods)
-               | JEmpty ->
-                 let argument0 =
-                   match argument with
-                   | Some _ -> argument
-                   | None -> Some e0
-                 in
-                 let mods =
-                   match elem_at elems (S (S O)) with
-                   | Some n ->
-                     (match n with
-                      | NScalar _ -> None
-                      | NArr _ -> None
-                      | NObj _ -> None
-                      | Field (_, _) -> None
-                      | Ident (_, _, _) -> None
-                      | BIdent (_, _, _, _) -> None
-                      | IdName _ -> None
-                      | Str (_, _) -> None
-                      | Num (_, _) -> None
-                      | Bool _ -> None
-                      | Null -> None
-                      | Arr elems3 -> Some (parse_modifiers elems3)
-                      | _ -> None)
-                   | None -> None
-                 in
-                 ((v, argument0), mods)
-               | JText (_, _) ->
-                 let argument0 =
-                   match argument with
-                   | Some _ -> argument
-                   | None -> Some e0
-                 in
-                 let mods =
-                   match elem_at elems (S (S O)) with
-                   | Some n ->
-                     (match n with
-                      | NScalar _ -> None
-                      | NArr _ -> None
-                      | NObj _ -> None
-                      | Field (_, _) -> None
-                      | Ident (_, _, _) -> None
-                      | BIdent (_, _, _, _) -> None
-                      | IdName _ -> None
-                      | Str (_, _) -> None
-                      | Num (_, _) -> None
-                      | Bool _ -> None
-                      | Null -> None
-                      | Arr elems3 -> Some (parse_modifiers elems3)
-                      | _ -> None)
-                   | None -> None
-                 in
-                 ((v, argument0), mods)
-               | JSpreadChild _ ->
-                 let argument0 =
-                   match argument with
-                   | Some _ -> argument
-                   | None -> Some e0
-                 in
-                 let mods =
-                   match elem_at elems (S (S O)) with
-                   | Some n ->
-                     (match n with
-                      | NScalar _ -> None
-                      | NArr _ -> None
-                      | NObj _ -> None
-                      | Field (_, _) -> None
-                      | Ident (_, _, _) -> None
-                      | BIdent (_, _, _, _) -> None
-                      | IdName _ -> None
-                      | Str (_, _) -> None
-                      | Num (_, _) -> None
-                      | Bool _ -> None
-                      | Null -> None
-                      | Arr elems3 -> Some (parse_modifiers elems3)
-                      | _ -> None)
-                   | None -> None
-                 in
-                 ((v, argument0), mods))
-            | None ->
-              let argument0 =
-                if is_component
-                then (match argument with
-                      | Some _ -> argument
-                      | None -> Some Null)
-                else argument
-              in
-              ((v, argument0), (Some (set_of_list splitted))))
-         | _ -> ((e, argument), (Some (set_of_list splitted)))
-       in
-       let (value', argument0) = p in
-       ((DVModel (argument0,
-       (if (&&) (negb is_component) (nonempty_mods modifiers)
-        then or_void0 argument0
-        else argument0),
-       (match modifiers with
-        | Some m -> transform_modifiers m is_component
-        | None -> None), value')), s0))
+           s))
+     | _ -> (e, s))
   | _ ->
-    let s0 =
-      add_diag (String ((Ascii (true, false, false, true, true, false, true,
+    (empty_ident,
+      (add_diag (String ((Ascii (true, false, false, true, true, false, true,
         false)), (String ((Ascii (true, true, true, true, false, true, true,
         false)), (String ((Ascii (true, false, true, false, true, true, true,
         false)), (String ((Ascii (false, false, false, false, false, true,
@@ -2846,1197 +472,284 @@ let parse_v_model value is_component argument splitted s =
         false, false, false, false, true, true, false)), (String ((Ascii
         (false, true, true, true, false, true, false, false)),
         EmptyString))))))))))))))))))))))))))))))))))))))))))))))))))))))))))))))))))))))))))))))))))))))))))))))))))))))))))
-        s
-    in
-    let s1 =
-      match empty_ident with
-      | Arr elems ->
-        (match elems with
-         | [] ->
-           add_diag (String ((Ascii (false, false, true, false, true, false,
-             true, false)), (String ((Ascii (false, false, false, true,
-             false, true, true, false)), (String ((Ascii (true, false, true,
-             false, false, true, true, false)), (String ((Ascii (false,
-             false, false, false, false, true, false, false)), (String
-             ((Ascii (false, true, true, false, false, true, true, false)),
-             (String ((Ascii (true, false, false, true, false, true, true,
-             false)), (String ((Ascii (false, true, false, false, true, true,
-             true, false)), (String ((Ascii (true, true, false, false, true,
-             true, true, false)), (String ((Ascii (false, false, true, false,
-             true, true, true, false)), (String ((Ascii (false, false, false,
-             false, false, true, false, false)), (String ((Ascii (true,
-             false, true, false, false, true, true, false)), (String ((Ascii
-             (false, false, true, true, false, true, true, false)), (String
-             ((Ascii (true, false, true, false, false, true, true, false)),
-             (String ((Ascii (true, false, true, true, false, true, true,
-             false)), (String ((Ascii (true, false, true, false, false, true,
-             true, false)), (String ((Ascii (false, true, true, true, false,
-             true, true, false)), (String ((Ascii (false, false, true, false,
-             true, true, true, false)), (String ((Ascii (false, false, false,
-             false, false, true, false, false)), (String ((Ascii (true, true,
-             true, true, false, true, true, false)), (String ((Ascii (false,
-             true, true, false, false, true, true, false)), (String ((Ascii
-             (false, false, false, false, false, true, false, false)),
-             (String ((Ascii (false, false, false, false, false, true, true,
-             false)), (String ((Ascii (false, true, true, false, true, true,
-             true, false)), (String ((Ascii (true, false, true, true, false,
-             true, false, false)), (String ((Ascii (true, false, true, true,
-             false, true, true, false)), (String ((Ascii (true, true, true,
-             true, false, true, true, false)), (String ((Ascii (false, false,
-             true, false, false, true, true, false)), (String ((Ascii (true,
-             false, true, false, false, true, true, false)), (String ((Ascii
-             (false, false, true, true, false, true, true, false)), (String
-             ((Ascii (false, false, false, false, false, true, true, false)),
-             (String ((Ascii (false, false, false, false, false, true, false,
-             false)), (String ((Ascii (true, false, false, false, false,
-             true, true, false)), (String ((Ascii (false, true, false, false,
-             true, true, true, false)), (String ((Ascii (false, true, false,
-             false, true, true, true, false)), (String ((Ascii (true, false,
-             false, false, false, true, true, false)), (String ((Ascii (true,
-             false, false, true, true, true, true, false)), (String ((Ascii
-             (false, false, false, false, false, true, false, false)),
-             (String ((Ascii (true, false, true, true, false, true, true,
-             false)), (String ((Ascii (true, false, true, false, true, true,
-             true, false)), (String ((Ascii (true, true, false, false, true,
-             true, true, false)), (String ((Ascii (false, false, true, false,
-             true, true, true, false)), (String ((Ascii (false, false, false,
-             false, false, true, false, false)), (String ((Ascii (false,
-             true, false, false, false, true, true, false)), (String ((Ascii
-             (true, false, true, false, false, true, true, false)), (String
-             ((Ascii (false, false, false, false, false, true, false,
-             false)), (String ((Ascii (false, false, true, false, true, true,
-             true, false)), (String ((Ascii (false, false, false, true,
-             false, true, true, false)), (String ((Ascii (true, false, true,
-             false, false, true, true, false)), (String ((Ascii (false,
-             false, false, false, false, true, false, false)), (String
-             ((Ascii (false, true, false, false, false, true, true, false)),
-             (String ((Ascii (true, true, true, true, false, true, true,
-             false)), (String ((Ascii (true, false, true, false, true, true,
-             true, false)), (String ((Ascii (false, true, true, true, false,
-             true, true, false)), (String ((Ascii (false, false, true, false,
-             false, true, true, false)), (String ((Ascii (false, false,
-             false, false, false, true, false, false)), (String ((Ascii
-             (true, false, true, false, false, true, true, false)), (String
-             ((Ascii (false, false, false, true, true, true, true, false)),
-             (String ((Ascii (false, false, false, false, true, true, true,
-             false)), (String ((Ascii (false, true, false, false, true, true,
-             true, false)), (String ((Ascii (true, false, true, false, false,
-             true, true, false)), (String ((Ascii (true, true, false, false,
-             true, true, true, false)), (String ((Ascii (true, true, false,
-             false, true, true, true, false)), (String ((Ascii (true, false,
-             false, true, false, true, true, false)), (String ((Ascii (true,
-             true, true, true, false, true, true, false)), (String ((Ascii
-             (false, true, true, true, false, true, true, false)), (String
-             ((Ascii (false, true, true, true, false, true, false, false)),
-             EmptyString))))))))))))))))))))))))))))))))))))))))))))))))))))))))))))))))))))))))))))))))))))))))))))))))))))))))))))))))))))))))))))))))))))
-             s0
-         | n :: _ ->
-           (match n with
-            | Elem (spread, _) ->
-              if spread
-              then add_diag (String ((Ascii (false, false, true, false, true,
-                     false, true, false)), (String ((Ascii (false, false,
-                     false, true, false, true, true, false)), (String ((Ascii
-                     (true, false, true, false, false, true, true, false)),
-                     (String ((Ascii (false, false, false, false, false,
-                     true, false, false)), (String ((Ascii (false, true,
-                     true, false, false, true, true, false)), (String ((Ascii
-                     (true, false, false, true, false, true, true, false)),
-                     (String ((Ascii (false, true, false, false, true, true,
-                     true, false)), (String ((Ascii (true, true, false,
-                     false, true, true, true, false)), (String ((Ascii
-                     (false, false, true, false, true, true, true, false)),
-                     (String ((Ascii (false, false, false, false, false,
-                     true, false, false)), (String ((Ascii (true, false,
-                     true, false, false, true, true, false)), (String ((Ascii
-                     (false, false, true, true, false, true, true, false)),
-                     (String ((Ascii (true, false, true, false, false, true,
-                     true, false)), (String ((Ascii (true, false, true, true,
-                     false, true, true, false)), (String ((Ascii (true,
-                     false, true, false, false, true, true, false)), (String
-                     ((Ascii (false, true, true, true, false, true, true,
-                     false)), (String ((Ascii (false, false, true, false,
-                     true, true, true, false)), (String ((Ascii (false,
-                     false, false, false, false, true, false, false)),
-                     (String ((Ascii (true, true, true, true, false, true,
-                     true, false)), (String ((Ascii (false, true, true,
-                     false, false, true, true, false)), (String ((Ascii
-                     (false, false, false, false, false, true, false,
-                     false)), (String ((Ascii (false, false, false, false,
-                     false, true, true, false)), (String ((Ascii (false,
-                     true, true, false, true, true, true, false)), (String
-                     ((Ascii (true, false, true, true, false, true, false,
-                     false)), (String ((Ascii (true, false, true, true,
-                     false, true, true, false)), (String ((Ascii (true, true,
-                     true, true, false, true, true, false)), (String ((Ascii
-                     (false, false, true, false, false, true, true, false)),
-                     (String ((Ascii (true, false, true, false, false, true,
-                     true, false)), (String ((Ascii (false, false, true,
-                     true, false, true, true, false)), (String ((Ascii
-                     (false, false, false, false, false, true, true, false)),
-                     (String ((Ascii (false, false, false, false, false,
-                     true, false, false)), (String ((Ascii (true, false,
-                     false, false, false, true, true, false)), (String
-                     ((Ascii (false, true, false, false, true, true, true,
-                     false)), (String ((Ascii (false, true, false, false,
-                     true, true, true, false)), (String ((Ascii (true, false,
-                     false, false, false, true, true, false)), (String
-                     ((Ascii (true, false, false, true, true, true, true,
-                     false)), (String ((Ascii (false, false, false, false,
-                     false, true, false, false)), (String ((Ascii (true,
-                     false, true, true, false, true, true, false)), (String
-                     ((Ascii (true, false, true, false, true, true, true,
-                     false)), (String ((Ascii (true, true, false, false,
-                     true, true, true, false)), (String ((Ascii (false,
-                     false, true, false, true, true, true, false)), (String
-                     ((Ascii (false, false, false, false, false, true, false,
-                     false)), (String ((Ascii (false, true, false, false,
-                     false, true, true, false)), (String ((Ascii (true,
-                     false, true, false, false, true, true, false)), (String
-                     ((Ascii (false, false, false, false, false, true, false,
-                     false)), (String ((Ascii (false, false, true, false,
-                     true, true, true, false)), (String ((Ascii (false,
-                     false, false, true, false, true, true, false)), (String
-                     ((Ascii (true, false, true, false, false, true, true,
-                     false)), (String ((Ascii (false, false, false, false,
-                     false, true, false, false)), (String ((Ascii (false,
-                     true, false, false, false, true, true, false)), (String
-                     ((Ascii (true, true, true, true, false, true, true,
-                     false)), (String ((Ascii (true, false, true, false,
-                     true, true, true, false)), (String ((Ascii (false, true,
-                     true, true, false, true, true, false)), (String ((Ascii
-                     (false, false, true, false, false, true, true, false)),
-                     (String ((Ascii (false, false, false, false, false,
-                     true, false, false)), (String ((Ascii (true, false,
-                     true, false, false, true, true, false)), (String ((Ascii
-                     (false, false, false, true, true, true, true, false)),
-                     (String ((Ascii (false, false, false, false, true, true,
-                     true, false)), (String ((Ascii (false, true, false,
-                     false, true, true, true, false)), (String ((Ascii (true,
-                     false, true, false, false, true, true, false)), (String
-                     ((Ascii (true, true, false, false, true, true, true,
-                     false)), (String ((Ascii (true, true, false, false,
-                     true, true, true, false)), (String ((Ascii (true, false,
-                     false, true, false, true, true, false)), (String ((Ascii
-                     (true, true, true, true, false, true, true, false)),
-                     (String ((Ascii (false, true, true, true, false, true,
-                     true, false)), (String ((Ascii (false, true, true, true,
-                     false, true, false, false)),
-                     EmptyString))))))))))))))))))))))))))))))))))))))))))))))))))))))))))))))))))))))))))))))))))))))))))))))))))))))))))))))))))))))))))))))))))))
-                     s0
-              else s0
-            | _ ->
-              add_diag (String ((Ascii (false, false, true, false, true,
-                false, true, false)), (String ((Ascii (false, false, false,
-                true, false, true, true, false)), (String ((Ascii (true,
-                false, true, false, false, true, true, false)), (String
-                ((Ascii (false, false, false, false, false, true, false,
-                false)), (String ((Ascii (false, true, true, false, false,
-                true, true, false)), (String ((Ascii (true, false, false,
-                true, false, true, true, false)), (String ((Ascii (false,
-                true, false, false, true, true, true, false)), (String
-                ((Ascii (true, true, false, false, true, true, true, false)),
-                (String ((Ascii (false, false, true, false, true, true, true,
-                false)), (String ((Ascii (false, false, false, false, false,
-                true, false, false)), (String ((Ascii (true, false, true,
-                false, false, true, true, false)), (String ((Ascii (false,
-                false, true, true, false, true, true, false)), (String
-                ((Ascii (true, false, true, false, false, true, true,
-                false)), (String ((Ascii (true, false, true, true, false,
-                true, true, false)), (String ((Ascii (true, false, true,
-                false, false, true, true, false)), (String ((Ascii (false,
-                true, true, true, false, true, true, false)), (String ((Ascii
-                (false, false, true, false, true, true, true, false)),
-                (String ((Ascii (false, false, false, false, false, true,
-                false, false)), (String ((Ascii (true, true, true, true,
-                false, true, true, false)), (String ((Ascii (false, true,
-                true, false, false, true, true, false)), (String ((Ascii
-                (false, false, false, false, false, true, false, false)),
-                (String ((Ascii (false, false, false, false, false, true,
-                true, false)), (String ((Ascii (false, true, true, false,
-                true, true, true, false)), (String ((Ascii (true, false,
-                true, true, false, true, false, false)), (String ((Ascii
-                (true, false, true, true, false, true, true, false)), (String
-                ((Ascii (true, true, true, true, false, true, true, false)),
-                (String ((Ascii (false, false, true, false, false, true,
-                true, false)), (String ((Ascii (true, false, true, false,
-                false, true, true, false)), (String ((Ascii (false, false,
-                true, true, false, true, true, false)), (String ((Ascii
-                (false, false, false, false, false, true, true, false)),
-                (String ((Ascii (false, false, false, false, false, true,
-                false, false)), (String ((Ascii (true, false, false, false,
-                false, true, true, false)), (String ((Ascii (false, true,
-                false, false, true, true, true, false)), (String ((Ascii
-                (false, true, false, false, true, true, true, false)),
-                (String ((Ascii (true, false, false, false, false, true,
-                true, false)), (String ((Ascii (true, false, false, true,
-                true, true, true, false)), (String ((Ascii (false, false,
-                false, false, false, true, false, false)), (String ((Ascii
-                (true, false, true, true, false, true, true, false)), (String
-                ((Ascii (true, false, true, false, true, true, true, false)),
-                (String ((Ascii (true, true, false, false, true, true, true,
-                false)), (String ((Ascii (false, false, true, false, true,
-                true, true, false)), (String ((Ascii (false, false, false,
-                false, false, true, false, false)), (String ((Ascii (false,
-                true, false, false, false, true, true, false)), (String
-                ((Ascii (true, false, true, false, false, true, true,
-                false)), (String ((Ascii (false, false, false, false, false,
-                true, false, false)), (String ((Ascii (false, false, true,
-                false, true, true, true, false)), (String ((Ascii (false,
-                false, false, true, false, true, true, false)), (String
-                ((Ascii (true, false, true, false, false, true, true,
-                false)), (String ((Ascii (false, false, false, false, false,
-                true, false, false)), (String ((Ascii (false, true, false,
-                false, false, true, true, false)), (String ((Ascii (true,
-                true, true, true, false, true, true, false)), (String ((Ascii
-                (true, false, true, false, true, true, true, false)), (String
-                ((Ascii (false, true, true, true, false, true, true, false)),
-                (String ((Ascii (false, false, true, false, false, true,
-                true, false)), (String ((Ascii (false, false, false, false,
-                false, true, false, false)), (String ((Ascii (true, false,
-                true, false, false, true, true, false)), (String ((Ascii
-                (false, false, false, true, true, true, true, false)),
-                (String ((Ascii (false, false, false, false, true, true,
-                true, false)), (String ((Ascii (false, true, false, false,
-                true, true, true, false)), (String ((Ascii (true, false,
-                true, false, false, true, true, false)), (String ((Ascii
-                (true, true, false, false, true, true, true, false)), (String
-                ((Ascii (true, true, false, false, true, true, true, false)),
-                (String ((Ascii (true, false, false, true, false, true, true,
-                false)), (String ((Ascii (true, true, true, true, false,
-                true, true, false)), (String ((Ascii (false, true, true,
-                true, false, true, true, false)), (String ((Ascii (false,
-                true, true, true, false, true, false, false)),
-                EmptyString))))))))))))))))))))))))))))))))))))))))))))))))))))))))))))))))))))))))))))))))))))))))))))))))))))))))))))))))))))))))))))))))))))
-                s0))
-      | _ -> s0
-    in
-    let (p, modifiers) =
-      match empty_ident with
-      | Arr elems ->
-        let v =
-          match elems with
-          | [] -> empty_ident
-          | n :: _ ->
-            (match n with
-             | Elem (spread, e) -> if spread then empty_ident else e
-             | _ -> empty_ident)
-        in
-        (match elem_at elems (S O) with
-         | Some e ->
-           (match e with
-            | NScalar _ ->
-              let argument0 =
-                match argument with
-                | Some _ -> argument
-                | None -> Some e
-              in
-              let mods =
-                match elem_at elems (S (S O)) with
-                | Some n ->
-                  (match n with
-                   | NScalar _ -> None
-                   | NArr _ -> None
-                   | NObj _ -> None
-                   | Field (_, _) -> None
-                   | Ident (_, _, _) -> None
-                   | BIdent (_, _, _, _) -> None
-                   | IdName _ -> None
-                   | Str (_, _) -> None
-                   | Num (_, _) -> None
-                   | Bool _ -> None
-                   | Null -> None
-                   | Arr elems3 -> Some (parse_modifiers elems3)
-                   | _ -> None)
-                | None -> None
-              in
-              ((v, argument0), mods)
-            | NArr _ ->
-              let argument0 =
-                match argument with
-                | Some _ -> argument
-                | None -> Some e
-              in
-              let mods =
-                match elem_at elems (S (S O)) with
-                | Some n ->
-                  (match n with
-                   | NScalar _ -> None
-                   | NArr _ -> None
-                   | NObj _ -> None
-                   | Field (_, _) -> None
-                   | Ident (_, _, _) -> None
-                   | BIdent (_, _, _, _) -> None
-                   | IdName _ -> None
-                   | Str (_, _) -> None
-                   | Num (_, _) -> None
-                   | Bool _ -> None
-                   | Null -> None
-                   | Arr elems3 -> Some (parse_modifiers elems3)
-                   | _ -> None)
-                | None -> None
-              in
-              ((v, argument0), mods)
-            | NObj _ ->
-              let argument0 =
-                match argument with
-                | Some _ -> argument
-                | None -> Some e
-              in
-              let mods =
-                match elem_at elems (S (S O)) with
-                | Some n ->
-                  (match n with
-                   | NScalar _ -> None
-                   | NArr _ -> None
-                   | NObj _ -> None
-                   | Field (_, _) -> None
-                   | Ident (_, _, _) -> None
-                   | BIdent (_, _, _, _) -> None
-                   | IdName _ -> None
-                   | Str (_, _) -> None
-                   | Num (_, _) -> None
-                   | Bool _ -> None
-                   | Null -> None
-                   | Arr elems3 -> Some (parse_modifiers elems3)
-                   | _ -> None)
-                | None -> None
-              in
-              ((v, argument0), mods)
-            | Field (_, _) ->
-              let argument0 =
-                match argument with
-                | Some _ -> argument
-                | None -> Some e
-              in
-              let mods =
-                match elem_at elems (S (S O)) with
-                | Some n ->
-                  (match n with
-                   | NScalar _ -> None
-                   | NArr _ -> None
-                   | NObj _ -> None
-                   | Field (_, _) -> None
-                   | Ident (_, _, _) -> None
-                   | BIdent (_, _, _, _) -> None
-                   | IdName _ -> None
-                   | Str (_, _) -> None
-                   | Num (_, _) -> None
-                   | Bool _ -> None
-                   | Null -> None
-                   | Arr elems3 -> Some (parse_modifiers elems3)
-                   | _ -> None)
-                | None -> None
-              in
-              ((v, argument0), mods)
-            | Ident (_, _, _) ->
-              let argument0 =
-                match argument with
-                | Some _ -> argument
-                | None -> Some e
-              in
-              let mods =
-                match elem_at elems (S (S O)) with
-                | Some n ->
-                  (match n with
-                   | NScalar _ -> None
-                   | NArr _ -> None
-                   | NObj _ -> None
-                   | Field (_, _) -> None
-                   | Ident (_, _, _) -> None
-                   | BIdent (_, _, _, _) -> None
-                   | IdName _ -> None
-                   | Str (_, _) -> None
-                   | Num (_, _) -> None
-                   | Bool _ -> None
-                   | Null -> None
-                   | Arr elems3 -> Some (parse_modifiers elems3)
-                   | _ -> None)
-                | None -> None
-              in
-              ((v, argument0), mods)
-            | BIdent (_, _, _, _) ->
-              let argument0 =
-                match argument with
-                | Some _ -> argument
-                | None -> Some e
-              in
-              let mods =
-                match elem_at elems (S (S O)) with
-                | Some n ->
-                  (match n with
-                   | NScalar _ -> None
-                   | NArr _ -> None
-                   | NObj _ -> None
-                   | Field (_, _) -> None
-                   | Ident (_, _, _) -> None
-                   | BIdent (_, _, _, _) -> None
-                   | IdName _ -> None
-                   | Str (_, _) -> None
-                   | Num (_, _) -> None
-                   | Bool _ -> None
-                   | Null -> None
-                   | Arr elems3 -> Some (parse_modifiers elems3)
-                   | _ -> None)
-                | None -> None
-              in
-              ((v, argument0), mods)
-            | IdName _ ->
-              let argument0 =
-                match argument with
-                | Some _ -> argument
-                | None -> Some e
-              in
-              let mods =
-                match elem_at elems (S (S O)) with
-                | Some n ->
-                  (match n with
-                   | NScalar _ -> None
-                   | NArr _ -> None
-                   | NObj _ -> None
-                   | Field (_, _) -> None
-                   | Ident (_, _, _) -> None
-                   | BIdent (_, _, _, _) -> None
-                   | IdName _ -> None
-                   | Str (_, _) -> None
-                   | Num (_, _) -> None
-                   | Bool _ -> None
-                   | Null -> None
-                   | Arr elems3 -> Some (parse_modifiers elems3)
-                   | _ -> None)
-                | None -> None
-              in
-              ((v, argument0), mods)
-            | Str (_, _) ->
-              let argument0 =
-                match argument with
-                | Some _ -> argument
-                | None -> Some e
-              in
-              let mods =
-                match elem_at elems (S (S O)) with
-                | Some n ->
-                  (match n with
-                   | NScalar _ -> None
-                   | NArr _ -> None
-                   | NObj _ -> None
-                   | Field (_, _) -> None
-                   | Ident (_, _, _) -> None
-                   | BIdent (_, _, _, _) -> None
-                   | IdName _ -> None
-                   | Str (_, _) -> None
-                   | Num (_, _) -> None
-                   | Bool _ -> None
-                   | Null -> None
-                   | Arr elems3 -> Some (parse_modifiers elems3)
-                   | _ -> None)
-                | None -> None
-              in
-              ((v, argument0), mods)
-            | Num (_, _) ->
-              let argument0 =
-                match argument with
-                | Some _ -> argument
-                | None -> Some e
-              in
-              let mods =
-                match elem_at elems (S (S O)) with
-                | Some n ->
-                  (match n with
-                   | NScalar _ -> None
-                   | NArr _ -> None
-                   | NObj _ -> None
-                   | Field (_, _) -> None
-                   | Ident (_, _, _) -> None
-                   | BIdent (_, _, _, _) -> None
-                   | IdName _ -> None
-                   | Str (_, _) -> None
-                   | Num (_, _) -> None
-                   | Bool _ -> None
-                   | Null -> None
-                   | Arr elems3 -> Some (parse_modifiers elems3)
-                   | _ -> None)
-                | None -> None
-              in
-              ((v, argument0), mods)
-            | Bool _ ->
-              let argument0 =
-                match argument with
-                | Some _ -> argument
-                | None -> Some e
-              in
-              let mods =
-                match elem_at elems (S (S O)) with
-                | Some n ->
-                  (match n with
-                   | NScalar _ -> None
-                   | NArr _ -> None
-                   | NObj _ -> None
-                   | Field (_, _) -> None
-                   | Ident (_, _, _) -> None
-                   | BIdent (_, _, _, _) -> None
-                   | IdName _ -> None
-                   | Str (_, _) -> None
-                   | Num (_, _) -> None
-                   | Bool _ -> None
-                   | Null -> None
-                   | Arr elems3 -> Some (parse_modifiers elems3)
-                   | _ -> None)
-                | None -> None
-              in
-              ((v, argument0), mods)
-            | Null ->
-              let argument0 =
-                match argument with
-                | Some _ -> argument
-                | None -> Some e
-              in
-              let mods =
-                match elem_at elems (S (S O)) with
-                | Some n ->
-                  (match n with
-                   | NScalar _ -> None
-                   | NArr _ -> None
-                   | NObj _ -> None
-                   | Field (_, _) -> None
-                   | Ident (_, _, _) -> None
-                   | BIdent (_, _, _, _) -> None
-                   | IdName _ -> None
-                   | Str (_, _) -> None
-                   | Num (_, _) -> None
-                   | Bool _ -> None
-                   | Null -> None
-                   | Arr elems3 -> Some (parse_modifiers elems3)
-                   | _ -> None)
-                | None -> None
-              in
-              ((v, argument0), mods)
-            | Arr elems2 ->
-              let argument0 =
-                if is_component
-                then (match argument with
-                      | Some _ -> argument
-                      | None -> Some Null)
-                else argument
-              in
-              ((v, argument0), (Some (parse_modifiers elems2)))
-            | Elem (_, _) ->
-              let argument0 =
-                match argument with
-                | Some _ -> argument
-                | None -> Some e
-              in
-              let mods =
-                match elem_at elems (S (S O)) with
-                | Some n ->
-                  (match n with
-                   | NScalar _ -> None
-                   | NArr _ -> None
-                   | NObj _ -> None
-                   | Field (_, _) -> None
-                   | Ident (_, _, _) -> None
-                   | BIdent (_, _, _, _) -> None
-                   | IdName _ -> None
-                   | Str (_, _) -> None
-                   | Num (_, _) -> None
-                   | Bool _ -> None
-                   | Null -> None
-                   | Arr elems3 -> Some (parse_modifiers elems3)
-                   | _ -> None)
-                | None -> None
-              in
-              ((v, argument0), mods)
-            | Hole ->
-              let argument0 =
-                match argument with
-                | Some _ -> argument
-                | None -> Some e
-              in
-              let mods =
-                match elem_at elems (S (S O)) with
-                | Some n ->
-                  (match n with
-                   | NScalar _ -> None
-                   | NArr _ -> None
-                   | NObj _ -> None
-                   | Field (_, _) -> None
-                   | Ident (_, _, _) -> None
-                   | BIdent (_, _, _, _) -> None
-                   | IdName _ -> None
-                   | Str (_, _) -> None
-                   | Num (_, _) -> None
-                   | Bool _ -> None
-                   | Null -> None
-                   | Arr elems3 -> Some (parse_modifiers elems3)
-                   | _ -> None)
-                | None -> None
-              in
-              ((v, argument0), mods)
-            | Obj _ ->
-              let argument0 =
-                match argument with
-                | Some _ -> argument
-                | None -> Some e
-              in
-              let mods =
-                match elem_at elems (S (S O)) with
-                | Some n ->
-                  (match n with
-                   | NScalar _ -> None
-                   | NArr _ -> None
-                   | NObj _ -> None
-                   | Field (_, _) -> None
-                   | Ident (_, _, _) -> None
-                   | BIdent (_, _, _, _) -> None
-                   | IdName _ -> None
-                   | Str (_, _) -> None
-                   | Num (_, _) -> None
-                   | Bool _ -> None
-                   | Null -> None
-                   | Arr elems3 -> Some (parse_modifiers elems3)
-                   | _ -> None)
-                | None -> None
-              in
-              ((v, argument0), mods)
-            | KV (_, _) ->
-              let argument0 =
-                match argument with
-                | Some _ -> argument
-                | None -> Some e
-              in
-              let mods =
-                match elem_at elems (S (S O)) with
-                | Some n ->
-                  (match n with
-                   | NScalar _ -> None
-                   | NArr _ -> None
-                   | NObj _ -> None
-                   | Field (_, _) -> None
-                   | Ident (_, _, _) -> None
-                   | BIdent (_, _, _, _) -> None
-                   | IdName _ -> None
-                   | Str (_, _) -> None
-                   | Num (_, _) -> None
-                   | Bool _ -> None
-                   | Null -> None
-                   | Arr elems3 -> Some (parse_modifiers elems3)
-                   | _ -> None)
-                | None -> None
-              in
-              ((v, argument0), mods)
-            | Computed _ ->
-              let argument0 =
-                match argument with
-                | Some _ -> argument
-                | None -> Some e
-              in
-              let mods =
-                match elem_at elems (S (S O)) with
-                | Some n ->
-                  (match n with
-                   | NScalar _ -> None
-                   | NArr _ -> None
-                   | NObj _ -> None
-                   | Field (_, _) -> None
-                   | Ident (_, _, _) -> None
-                   | BIdent (_, _, _, _) -> None
-                   | IdName _ -> None
-                   | Str (_, _) -> None
-                   | Num (_, _) -> None
-                   | Bool _ -> None
-                   | Null -> None
-                   | Arr elems3 -> Some (parse_modifiers elems3)
-                   | _ -> None)
-                | None -> None
-              in
-              ((v, argument0), mods)
-            | Spread _ ->
-              let argument0 =
-                match argument with
-                | Some _ -> argument
-                | None -> Some e
-              in
-              let mods =
-                match elem_at elems (S (S O)) with
-                | Some n ->
-                  (match n with
-                   | NScalar _ -> None
-                   | NArr _ -> None
-                   | NObj _ -> None
-                   | Field (_, _) -> None
-                   | Ident (_, _, _) -> None
-                   | BIdent (_, _, _, _) -> None
-                   | IdName _ -> None
-                   | Str (_, _) -> None
-                   | Num (_, _) -> None
-                   | Bool _ -> None
-                   | Null -> None
-                   | Arr elems3 -> Some (parse_modifiers elems3)
-                   | _ -> None)
-                | None -> None
-              in
-              ((v, argument0), mods)
-            | Call (_, _, _, _, _) ->
-              let argument0 =
-                match argument with
-                | Some _ -> argument
-                | None -> Some e
-              in
-              let mods =
-                match elem_at elems (S (S O)) with
-                | Some n ->
-                  (match n with
-                   | NScalar _ -> None
-                   | NArr _ -> None
-                   | NObj _ -> None
-                   | Field (_, _) -> None
-                   | Ident (_, _, _) -> None
-                   | BIdent (_, _, _, _) -> None
-                   | IdName _ -> None
-                   | Str (_, _) -> None
-                   | Num (_, _) -> None
-                   | Bool _ -> None
-                   | Null -> None
-                   | Arr elems3 -> Some (parse_modifiers elems3)
-                   | _ -> None)
-                | None -> None
-              in
-              ((v, argument0), mods)
-            | Arrow (_, _, _, _, _, _, _) ->
-              let argument0 =
-                match argument with
-                | Some _ -> argument
-                | None -> Some e
-              in
-              let mods =
-                match elem_at elems (S (S O)) with
-                | Some n ->
-                  (match n with
-                   | NScalar _ -> None
-                   | NArr _ -> None
-                   | NObj _ -> None
-                   | Field (_, _) -> None
-                   | Ident (_, _, _) -> None
-                   | BIdent (_, _, _, _) -> None
-                   | IdName _ -> None
-                   | Str (_, _) -> None
-                   | Num (_, _) -> None
-                   | Bool _ -> None
-                   | Null -> None
-                   | Arr elems3 -> Some (parse_modifiers elems3)
-                   | _ -> None)
-                | None -> None
-              in
-              ((v, argument0), mods)
-            | Assign (_, _, _) ->
-              let argument0 =
-                match argument with
-                | Some _ -> argument
-                | None -> Some e
-              in
-              let mods =
-                match elem_at elems (S (S O)) with
-                | Some n ->
-                  (match n with
-                   | NScalar _ -> None
-                   | NArr _ -> None
-                   | NObj _ -> None
-                   | Field (_, _) -> None
-                   | Ident (_, _, _) -> None
-                   | BIdent (_, _, _, _) -> None
-                   | IdName _ -> None
-                   | Str (_, _) -> None
-                   | Num (_, _) -> None
-                   | Bool _ -> None
-                   | Null -> None
-                   | Arr elems3 -> Some (parse_modifiers elems3)
-                   | _ -> None)
-                | None -> None
-              in
-              ((v, argument0), mods)
-            | Paren _ ->
-              let argument0 =
-                match argument with
-                | Some _ -> argument
-                | None -> Some e
-              in
-              let mods =
-                match elem_at elems (S (S O)) with
-                | Some n ->
-                  (match n with
-                   | NScalar _ -> None
-                   | NArr _ -> None
-                   | NObj _ -> None
-                   | Field (_, _) -> None
-                   | Ident (_, _, _) -> None
-                   | BIdent (_, _, _, _) -> None
-                   | IdName _ -> None
-                   | Str (_, _) -> None
-                   | Num (_, _) -> None
-                   | Bool _ -> None
-                   | Null -> None
-                   | Arr elems3 -> Some (parse_modifiers elems3)
-                   | _ -> None)
-                | None -> None
-              in
-              ((v, argument0), mods)
-            | Cond (_, _, _) ->
-              let argument0 =
-                match argument with
-                | Some _ -> argument
-                | None -> Some e
-              in
-              let mods =
-                match elem_at elems (S (S O)) with
-                | Some n ->
-                  (match n with
-                   | NScalar _ -> None
-                   | NArr _ -> None
-                   | NObj _ -> None
-                   | Field (_, _) -> None
-                   | Ident (_, _, _) -> None
-                   | BIdent (_, _, _, _) -> None
-                   | IdName _ -> None
-                   | Str (_, _) -> None
-                   | Num (_, _) -> None
-                   | Bool _ -> None
-                   | Null -> None
-                   | Arr elems3 -> Some (parse_modifiers elems3)
-                   | _ -> None)
-                | None -> None
-              in
-              ((v, argument0), mods)
-            | Bin (_, _, _) ->
-              let argument0 =
-                match argument with
-                | Some _ -> argument
-                | None -> Some e
-              in
-              let mods =
-                match elem_at elems (S (S O)) with
-                | Some n ->
-                  (match n with
-                   | NScalar _ -> None
-                   | NArr _ -> None
-                   | NObj _ -> None
-                   | Field (_, _) -> None
-                   | Ident (_, _, _) -> None
-                   | BIdent (_, _, _, _) -> None
-                   | IdName _ -> None
-                   | Str (_, _) -> None
-                   | Num (_, _) -> None
-                   | Bool _ -> None
-                   | Null -> None
-                   | Arr elems3 -> Some (parse_modifiers elems3)
-                   | _ -> None)
-                | None -> None
-              in
-              ((v, argument0), mods)
-            | Unary (_, _) ->
-              let argument0 =
-                match argument with
-                | Some _ -> argument
-                | None -> Some e
-              in
-              let mods =
-                match elem_at elems (S (S O)) with
-                | Some n ->
-                  (match n with
-                   | NScalar _ -> None
-                   | NArr _ -> None
-                   | NObj _ -> None
-                   | Field (_, _) -> None
-                   | Ident (_, _, _) -> None
-                   | BIdent (_, _, _, _) -> None
-                   | IdName _ -> None
-                   | Str (_, _) -> None
-                   | Num (_, _) -> None
-                   | Bool _ -> None
-                   | Null -> None
-                   | Arr elems3 -> Some (parse_modifiers elems3)
-                   | _ -> None)
-                | None -> None
-              in
-              ((v, argument0), mods)
-            | Member (_, _) ->
-              let argument0 =
-                match argument with
-                | Some _ -> argument
-                | None -> Some e
-              in
-              let mods =
-                match elem_at elems (S (S O)) with
-                | Some n ->
-                  (match n with
-                   | NScalar _ -> None
-                   | NArr _ -> None
-                   | NObj _ -> None
-                   | Field (_, _) -> None
-                   | Ident (_, _, _) -> None
-                   | BIdent (_, _, _, _) -> None
-                   | IdName _ -> None
-                   | Str (_, _) -> None
-                   | Num (_, _) -> None
-                   | Bool _ -> None
-                   | Null -> None
-                   | Arr elems3 -> Some (parse_modifiers elems3)
-                   | _ -> None)
-                | None -> None
-              in
-              ((v, argument0), mods)
-            | Block (_, _) ->
-              let argument0 =
-                match argument with
-                | Some _ -> argument
-                | None -> Some e
-              in
-              let mods =
-                match elem_at elems (S (S O)) with
-                | Some n ->
-                  (match n with
-                   | NScalar _ -> None
-                   | NArr _ -> None
-                   | NObj _ -> None
-                   | Field (_, _) -> None
-                   | Ident (_, _, _) -> None
-                   | BIdent (_, _, _, _) -> None
-                   | IdName _ -> None
-                   | Str (_, _) -> None
-                   | Num (_, _) -> None
-                   | Bool _ -> None
-                   | Null -> None
-                   | Arr elems3 -> Some (parse_modifiers elems3)
-                   | _ -> None)
-                | None -> None
-              in
-              ((v, argument0), mods)
-            | JsxE (_, _, _, _, _, _) ->
-              let argument0 =
-                match argument with
-                | Some _ -> argument
-                | None -> Some e
-              in
-              let mods =
-                match elem_at elems (S (S O)) with
-                | Some n ->
-                  (match n with
-                   | NScalar _ -> None
-                   | NArr _ -> None
-                   | NObj _ -> None
-                   | Field (_, _) -> None
-                   | Ident (_, _, _) -> None
-                   | BIdent (_, _, _, _) -> None
-                   | IdName _ -> None
-                   | Str (_, _) -> None
-                   | Num (_, _) -> None
-                   | Bool _ -> None
-                   | Null -> None
-                   | Arr elems3 -> Some (parse_modifiers elems3)
-                   | _ -> None)
-                | None -> None
-              in
-              ((v, argument0), mods)
-            | JsxF _ ->
-              let argument0 =
-                match argument with
-                | Some _ -> argument
-                | None -> Some e
-              in
-              let mods =
-                match elem_at elems (S (S O)) with
-                | Some n ->
-                  (match n with
-                   | NScalar _ -> None
-                   | NArr _ -> None
-                   | NObj _ -> None
-                   | Field (_, _) -> None
-                   | Ident (_, _, _) -> None
-                   | BIdent (_, _, _, _) -> None
-                   | IdName _ -> None
-                   | Str (_, _) -> None
-                   | Num (_, _) -> None
-                   | Bool _ -> None
-                   | Null -> None
-                   | Arr elems3 -> Some (parse_modifiers elems3)
-                   | _ -> None)
-                | None -> None
-              in
-              ((v, argument0), mods)
-            | JAttr (_, _) ->
-              let argument0 =
-                match argument with
-                | Some _ -> argument
-                | None -> Some e
-              in
-              let mods =
-                match elem_at elems (S (S O)) with
-                | Some n ->
-                  (match n with
-                   | NScalar _ -> None
-                   | NArr _ -> None
-                   | NObj _ -> None
-                   | Field (_, _) -> None
-                   | Ident (_, _, _) -> None
-                   | BIdent (_, _, _, _) -> None
-                   | IdName _ -> None
-                   | Str (_, _) -> None
-                   | Num (_, _) -> None
-                   | Bool _ -> None
-                   | Null -> None
-                   | Arr elems3 -> Some (parse_modifiers elems3)
-                   | _ -> None)
-                | None -> None
-              in
-              ((v, argument0), mods)
-            | JNs (_, _) ->
-              let argument0 =
-                match argument with
-                | Some _ -> argument
-                | None -> Some e
-              in
-              let mods =
-                match elem_at elems (S (S O)) with
-                | Some n ->
-                  (match n with
-                   | NScalar _ -> None
-                   | NArr _ -> None
-                   | NObj _ -> None
-                   | Field (_, _) -> None
-                   | Ident (_, _, _) -> None
-                   | BIdent (_, _, _, _) -> None
-                   | IdName _ -> None
-                   | Str (_, _) -> None
-                   | Num (_, _) -> None
-                   | Bool _ -> None
-                   | Null -> None
-                   | Arr elems3 -> Some (parse_modifiers elems3)
-                   | _ -> None)
-                | None -> None
-              in
-              ((v, argument0), mods)
-            | JExprC _ ->
-              let argument0 =
-                match argument with
-                | Some _ -> argument
-                | None -> Some e
-              in
-              let mods =
-                match elem_at elems (S (S O)) with
-                | Some n ->
-                  (match n with
-                   | NScalar _ -> None
-                   | NArr _ -> None
-                   | NObj _ -> None
-                   | Field (_, _) -> None
-                   | Ident (_, _, _) -> None
-                   | BIdent (_, _, _, _) -> None
-                   | IdName _ -> None
-                   | Str (_, _) -> None
-                   | Num (_, _) -> None
-                   | Bool _ -> None
-                   | Null -> None
-                   | Arr elems3 -> Some (parse_modifiers elems3)
-                   | _ -> None)
-                | None -> None
-              in
-              ((v, argument0), mods)
-            | JEmpty ->
-              let argument0 =
-                match argument with
-                | Some _ -> argument
-                | None -> Some e
-              in
-              let mods =
-                match elem_at elems (S (S O)) with
-                | Some n ->
-                  (match n with
-                   | NScalar _ -> None
-                   | NArr _ -> None
-                   | NObj _ -> None
-                   | Field (_, _) -> None
-                   | Ident (_, _, _) -> None
-                   | BIdent (_, _, _, _) -> None
-                   | IdName _ -> None
-                   | Str (_, _) -> None
-                   | Num (_, _) -> None
-                   | Bool _ -> None
-                   | Null -> None
-                   | Arr elems3 -> Some (parse_modifiers elems3)
-                   | _ -> None)
-                | None -> None
-              in
-              ((v, argument0), mods)
-            | JText (_, _) ->
-              let argument0 =
-                match argument with
-                | Some _ -> argument
-                | None -> Some e
-              in
-              let mods =
-                match elem_at elems (S (S O)) with
-                | Some n ->
-                  (match n with
-                   | NScalar _ -> None
-                   | NArr _ -> None
-                   | NObj _ -> None
-                   | Field (_, _) -> None
-                   | Ident (_, _, _) -> None
-                   | BIdent (_, _, _, _) -> None
-                   | IdName _ -> None
-                   | Str (_, _) -> None
-                   | Num (_, _) -> None
-                   | Bool _ -> None
-                   | Null -> None
-                   | Arr elems3 -> Some (parse_modifiers elems3)
-                   | _ -> None)
-                | None -> None
-              in
-              ((v, argument0), mods)
-            | JSpreadChild _ ->
-              let argument0 =
-                match argument with
-                | Some _ -> argument
-                | None -> Some e
-              in
-              let mods =
-                match elem_at elems (S (S O)) with
-                | Some n ->
-                  (match n with
-                   | NScalar _ -> None
-                   | NArr _ -> None
-                   | NObj _ -> None
-                   | Field (_, _) -> None
-                   | Ident (_, _, _) -> None
-                   | BIdent (_, _, _, _) -> None
-                   | IdName _ -> None
-                   | Str (_, _) -> None
-                   | Num (_, _) -> None
-                   | Bool _ -> None
-                   | Null -> None
-                   | Arr elems3 -> Some (parse_modifiers elems3)
-                   | _ -> None)
-                | None -> None
-              in
-              ((v, argument0), mods))
-         | None ->
-           let argument0 =
-             if is_component
-             then (match argument with
-                   | Some _ -> argument
-                   | None -> Some Null)
-             else argument
-           in
-           ((v, argument0), (Some (set_of_list splitted))))
-      | _ -> ((empty_ident, argument), (Some (set_of_list splitted)))
-    in
-    let (value', argument0) = p in
-    ((DVModel (argument0,
-    (if (&&) (negb is_component) (nonempty_mods modifiers)
-     then or_void0 argument0
-     else argument0),
-    (match modifiers with
-     | Some m -> transform_modifiers m is_component
-     | None -> None), value')), s1)
+        s))
+
+(** val vmodel_first_check : node -> st -> st **)
+
+let vmodel_first_check attr_value s =
+  match attr_value with
+  | Arr elems ->
+    (match elems with
+     | [] ->
+       add_diag (String ((Ascii (false, false, true, false, true, false,
+         true, false)), (String ((Ascii (false, false, false, true, false,
+         true, true, false)), (String ((Ascii (true, false, true, false,
+         false, true, true, false)), (String ((Ascii (false, false, false,
+         false, false, true, false, false)), (String ((Ascii (false, true,
+         true, false, false, true, true, false)), (String ((Ascii (true,
+         false, false, true, false, true, true, false)), (String ((Ascii
+         (false, true, false, false, true, true, true, false)), (String
+         ((Ascii (true, true, false, false, true, true, true, false)),
+         (String ((Ascii (false, false, true, false, true, true, true,
+         false)), (String ((Ascii (false, false, false, false, false, true,
+         false, false)), (String ((Ascii (true, false, true, false, false,
+         true, true, false)), (String ((Ascii (false, false, true, true,
+         false, true, true, false)), (String ((Ascii (true, false, true,
+         false, false, true, true, false)), (String ((Ascii (true, false,
+         true, true, false, true, true, false)), (String ((Ascii (true,
+         false, true, false, false, true, true, false)), (String ((Ascii
+         (false, true, true, true, false, true, true, false)), (String
+         ((Ascii (false, false, true, false, true, true, true, false)),
+         (String ((Ascii (false, false, false, false, false, true, false,
+         false)), (String ((Ascii (true, true, true, true, false, true, true,
+         false)), (String ((Ascii (false, true, true, false, false, true,
+         true, false)), (String ((Ascii (false, false, false, false, false,
+         true, false, false)), (String ((Ascii (false, false, false, false,
+         false, true, true, false)), (String ((Ascii (false, true, true,
+         false, true, true, true, false)), (String ((Ascii (true, false,
+         true, true, false, true, false, false)), (String ((Ascii (true,
+         false, true, true, false, true, true, false)), (String ((Ascii
+         (true, true, true, true, false, true, true, false)), (String ((Ascii
+         (false, false, true, false, false, true, true, false)), (String
+         ((Ascii (true, false, true, false, false, true, true, false)),
+         (String ((Ascii (false, false, true, true, false, true, true,
+         false)), (String ((Ascii (false, false, false, false, false, true,
+         true, false)), (String ((Ascii (false, false, false, false, false,
+         true, false, false)), (String ((Ascii (true, false, false, false,
+         false, true, true, false)), (String ((Ascii (false, true, false,
+         false, true, true, true, false)), (String ((Ascii (false, true,
+         false, false, true, true, true, false)), (String ((Ascii (true,
+         false, false, false, false, true, true, false)), (String ((Ascii
+         (true, false, false, true, true, true, true, false)), (String
+         ((Ascii (false, false, false, false, false, true, false, false)),
+         (String ((Ascii (true, false, true, true, false, true, true,
+         false)), (String ((Ascii (true, false, true, false, true, true,
+         true, false)), (String ((Ascii (true, true, false, false, true,
+         true, true, false)), (String ((Ascii (false, false, true, false,
+         true, true, true, false)), (String ((Ascii (false, false, false,
+         false, false, true, false, false)), (String ((Ascii (false, true,
+         false, false, false, true, true, false)), (String ((Ascii (true,
+         false, true, false, false, true, true, false)), (String ((Ascii
+         (false, false, false, false, false, true, false, false)), (String
+         ((Ascii (false, false, true, false, true, true, true, false)),
+         (String ((Ascii (false, false, false, true, false, true, true,
+         false)), (String ((Ascii (true, false, true, false, false, true,
+         true, false)), (String ((Ascii (false, false, false, false, false,
+         true, false, false)), (String ((Ascii (false, true, false, false,
+         false, true, true, false)), (String ((Ascii (true, true, true, true,
+         false, true, true, false)), (String ((Ascii (true, false, true,
+         false, true, true, true, false)), (String ((Ascii (false, true,
+         true, true, false, true, true, false)), (String ((Ascii (false,
+         false, true, false, false, true, true, false)), (String ((Ascii
+         (false, false, false, false, false, true, false, false)), (String
+         ((Ascii (true, false, true, false, false, true, true, false)),
+         (String ((Ascii (false, false, false, true, true, true, true,
+         false)), (String ((Ascii (false, false, false, false, true, true,
+         true, false)), (String ((Ascii (false, true, false, false, true,
+         true, true, false)), (String ((Ascii (true, false, true, false,
+         false, true, true, false)), (String ((Ascii (true, true, false,
+         false, true, true, true, false)), (String ((Ascii (true, true,
+         false, false, true, true, true, false)), (String ((Ascii (true,
+         false, false, true, false, true, true, false)), (String ((Ascii
+         (true, true, true, true, false, true, true, false)), (String ((Ascii
+         (false, true, true, true, false, true, true, false)), (String
+         ((Ascii (false, true, true, true, false, true, false, false)),
+         EmptyString))))))))))))))))))))))))))))))))))))))))))))))))))))))))))))))))))))))))))))))))))))))))))))))))))))))))))))))))))))))))))))))))))))
+         s
+     | n :: _ ->
+       (match n with
+        | Elem (spread, _) ->
+          if spread
+          then add_diag (String ((Ascii (false, false, true, false, true,
+                 false, true, false)), (String ((Ascii (false, false, false,
+                 true, false, true, true, false)), (String ((Ascii (true,
+                 false, true, false, false, true, true, false)), (String
+                 ((Ascii (false, false, false, false, false, true, false,
+                 false)), (String ((Ascii (false, true, true, false, false,
+                 true, true, false)), (String ((Ascii (true, false, false,
+                 true, false, true, true, false)), (String ((Ascii (false,
+                 true, false, false, true, true, true, false)), (String
+                 ((Ascii (true, true, false, false, true, true, true,
+                 false)), (String ((Ascii (false, false, true, false, true,
+                 true, true, false)), (String ((Ascii (false, false, false,
+                 false, false, true, false, false)), (String ((Ascii (true,
+                 false, true, false, false, true, true, false)), (String
+                 ((Ascii (false, false, true, true, false, true, true,
+                 false)), (String ((Ascii (true, false, true, false, false,
+                 true, true, false)), (String ((Ascii (true, false, true,
+                 true, false, true, true, false)), (String ((Ascii (true,
+                 false, true, false, false, true, true, false)), (String
+                 ((Ascii (false, true, true, true, false, true, true,
+                 false)), (String ((Ascii (false, false, true, false, true,
+                 true, true, false)), (String ((Ascii (false, false, false,
+                 false, false, true, false, false)), (String ((Ascii (true,
+                 true, true, true, false, true, true, false)), (String
+                 ((Ascii (false, true, true, false, false, true, true,
+                 false)), (String ((Ascii (false, false, false, false, false,
+                 true, false, false)), (String ((Ascii (false, false, false,
+                 false, false, true, true, false)), (String ((Ascii (false,
+                 true, true, false, true, true, true, false)), (String
+                 ((Ascii (true, false, true, true, false, true, false,
+                 false)), (String ((Ascii (true, false, true, true, false,
+                 true, true, false)), (String ((Ascii (true, true, true,
+                 true, false, true, true, false)), (String ((Ascii (false,
+                 false, true, false, false, true, true, false)), (String
+                 ((Ascii (true, false, true, false, false, true, true,
+                 false)), (String ((Ascii (false, false, true, true, false,
+                 true, true, false)), (String ((Ascii (false, false, false,
+                 false, false, true, true, false)), (String ((Ascii (false,
+                 false, false, false, false, true, false, false)), (String
+                 ((Ascii (true, false, false, false, false, true, true,
+                 false)), (String ((Ascii (false, true, false, false, true,
+                 true, true, false)), (String ((Ascii (false, true, false,
+                 false, true, true, true, false)), (String ((Ascii (true,
+                 false, false, false, false, true, true, false)), (String
+                 ((Ascii (true, false, false, true, true, true, true,
+                 false)), (String ((Ascii (false, false, false, false, false,
+                 true, false, false)), (String ((Ascii (true, false, true,
+                 true, false, true, true, false)), (String ((Ascii (true,
+                 false, true, false, true, true, true, false)), (String
+                 ((Ascii (true, true, false, false, true, true, true,
+                 false)), (String ((Ascii (false, false, true, false, true,
+                 true, true, false)), (String ((Ascii (false, false, false,
+                 false, false, true, false, false)), (String ((Ascii (false,
+                 true, false, false, false, true, true, false)), (String
+                 ((Ascii (true, false, true, false, false, true, true,
+                 false)), (String ((Ascii (false, false, false, false, false,
+                 true, false, false)), (String ((Ascii (false, false, true,
+                 false, true, true, true, false)), (String ((Ascii (false,
+                 false, false, true, false, true, true, false)), (String
+                 ((Ascii (true, false, true, false, false, true, true,
+                 false)), (String ((Ascii (false, false, false, false, false,
+                 true, false, false)), (String ((Ascii (false, true, false,
+                 false, false, true, true, false)), (String ((Ascii (true,
+                 true, true, true, false, true, true, false)), (String
+                 ((Ascii (true, false, true, false, true, true, true,
+                 false)), (String ((Ascii (false, true, true, true, false,
+                 true, true, false)), (String ((Ascii (false, false, true,
+                 false, false, true, true, false)), (String ((Ascii (false,
+                 false, false, false, false, true, false, false)), (String
+                 ((Ascii (true, false, true, false, false, true, true,
+                 false)), (String ((Ascii (false, false, false, true, true,
+                 true, true, false)), (String ((Ascii (false, false, false,
+                 false, true, true, true, false)), (String ((Ascii (false,
+                 true, false, false, true, true, true, false)), (String
+                 ((Ascii (true, false, true, false, false, true, true,
+                 false)), (String ((Ascii (true, true, false, false, true,
+                 true, true, false)), (String ((Ascii (true, true, false,
+                 false, true, true, true, false)), (String ((Ascii (true,
+                 false, false, true, false, true, true, false)), (String
+                 ((Ascii (true, true, true, true, false, true, true, false)),
+                 (String ((Ascii (false, true, true, true, false, true, true,
+                 false)), (String ((Ascii (false, true, true, true, false,
+                 true, false, false)),
+                 EmptyString))))))))))))))))))))))))))))))))))))))))))))))))))))))))))))))))))))))))))))))))))))))))))))))))))))))))))))))))))))))))))))))))))))
+                 s
+          else s
+        | _ ->
+          add_diag (String ((Ascii (false, false, true, false, true, false,
+            true, false)), (String ((Ascii (false, false, false, true, false,
+            true, true, false)), (String ((Ascii (true, false, true, false,
+            false, true, true, false)), (String ((Ascii (false, false, false,
+            false, false, true, false, false)), (String ((Ascii (false, true,
+            true, false, false, true, true, false)), (String ((Ascii (true,
+            false, false, true, false, true, true, false)), (String ((Ascii
+            (false, true, false, false, true, true, true, false)), (String
+            ((Ascii (true, true, false, false, true, true, true, false)),
+            (String ((Ascii (false, false, true, false, true, true, true,
+            false)), (String ((Ascii (false, false, false, false, false,
+            true, false, false)), (String ((Ascii (true, false, true, false,
+            false, true, true, false)), (String ((Ascii (false, false, true,
+            true, false, true, true, false)), (String ((Ascii (true, false,
+            true, false, false, true, true, false)), (String ((Ascii (true,
+            false, true, true, false, true, true, false)), (String ((Ascii
+            (true, false, true, false, false, true, true, false)), (String
+            ((Ascii (false, true, true, true, false, true, true, false)),
+            (String ((Ascii (false, false, true, false, true, true, true,
+            false)), (String ((Ascii (false, false, false, false, false,
+            true, false, false)), (String ((Ascii (true, true, true, true,
+            false, true, true, false)), (String ((Ascii (false, true, true,
+            false, false, true, true, false)), (String ((Ascii (false, false,
+            false, false, false, true, false, false)), (String ((Ascii
+            (false, false, false, false, false, true, true, false)), (String
+            ((Ascii (false, true, true, false, true, true, true, false)),
+            (String ((Ascii (true, false, true, true, false, true, false,
+            false)), (String ((Ascii (true, false, true, true, false, true,
+            true, false)), (String ((Ascii (true, true, true, true, false,
+            true, true, false)), (String ((Ascii (false, false, true, false,
+            false, true, true, false)), (String ((Ascii (true, false, true,
+            false, false, true, true, false)), (String ((Ascii (false, false,
+            true, true, false, true, true, false)), (String ((Ascii (false,
+            false, false, false, false, true, true, false)), (String ((Ascii
+            (false, false, false, false, false, true, false, false)), (String
+            ((Ascii (true, false, false, false, false, true, true, false)),
+            (String ((Ascii (false, true, false, false, true, true, true,
+            false)), (String ((Ascii (false, true, false, false, true, true,
+            true, false)), (String ((Ascii (true, false, false, false, false,
+            true, true, false)), (String ((Ascii (true, false, false, true,
+            true, true, true, false)), (String ((Ascii (false, false, false,
+            false, false, true, false, false)), (String ((Ascii (true, false,
+            true, true, false, true, true, false)), (String ((Ascii (true,
+            false, true, false, true, true, true, false)), (String ((Ascii
+            (true, true, false, false, true, true, true, false)), (String
+            ((Ascii (false, false, true, false, true, true, true, false)),
+            (String ((Ascii (false, false, false, false, false, true, false,
+            false)), (String ((Ascii (false, true, false, false, false, true,
+            true, false)), (String ((Ascii (true, false, true, false, false,
+            true, true, false)), (String ((Ascii (false, false, false, false,
+            false, true, false, false)), (String ((Ascii (false, false, true,
+            false, true, true, true, false)), (String ((Ascii (false, false,
+            false, true, false, true, true, false)), (String ((Ascii (true,
+            false, true, false, false, true, true, false)), (String ((Ascii
+            (false, false, false, false, false, true, false, false)), (String
+            ((Ascii (false, true, false, false, false, true, true, false)),
+            (String ((Ascii (true, true, true, true, false, true, true,
+            false)), (String ((Ascii (true, false, true, false, true, true,
+            true, false)), (String ((Ascii (false, true, true, true, false,
+            true, true, false)), (String ((Ascii (false, false, true, false,
+            false, true, true, false)), (String ((Ascii (false, false, false,
+            false, false, true, false, false)), (String ((Ascii (true, false,
+            true, false, false, true, true, false)), (String ((Ascii (false,
+            false, false, true, true, true, true, false)), (String ((Ascii
+            (false, false, false, false, true, true, true, false)), (String
+            ((Ascii (false, true, false, false, true, true, true, false)),
+            (String ((Ascii (true, false, true, false, false, true, true,
+            false)), (String ((Ascii (true, true, false, false, true, true,
+            true, false)), (String ((Ascii (true, true, false, false, true,
+            true, true, false)), (String ((Ascii (true, false, false, true,
+            false, true, true, false)), (String ((Ascii (true, true, true,
+            true, false, true, true, false)), (String ((Ascii (false, true,
+            true, true, false, true, true, false)), (String ((Ascii (false,
+            true, true, true, false, true, false, false)),
+            EmptyString))))))))))))))))))))))))))))))))))))))))))))))))))))))))))))))))))))))))))))))))))))))))))))))))))))))))))))))))))))))))))))))))))))
+            s))
+  | _ -> s
+
+(** val vmodel_parts :
+    node -> bool -> node option -> str list -> (node * node option) * str
+    list option **)
+
+let vmodel_parts attr_value is_component argument splitted =
+  match attr_value with
+  | Arr elems -> array_form is_component argument splitted elems
+  | _ -> ((attr_value, argument), (Some (set_of_list splitted)))
+
+(** val parse_v_model :
+    node -> bool -> node option -> str list -> st -> directive * st **)
+
+let parse_v_model value is_component argument splitted s =
+  let (attr_value, s0) = vmodel_attr_value value s in
+  let s1 = vmodel_first_check attr_value s0 in
+  let (p, modifiers) = vmodel_parts attr_value is_component argument splitted
+  in
+  let (value', argument0) = p in
+  ((DVModel (argument0,
+  (if (&&) (negb is_component) (nonempty_mods modifiers)
+   then or_void0 argument0
+   else argument0),
+  (match modifiers with
+   | Some m -> transform_modifiers m is_component
+   | None -> None), value')), s1)
 
 (** val parse_v_slots : node -> directive **)
 
@@ -4047,6 +760,18 @@ let parse_v_slots = function
    | Obj _ -> DSlots (Some e)
    | _ -> DSlots None)
 | _ -> DSlots None
+
+(** val normal_parts :
+    node -> node option -> str list -> (node * node option) * str list option **)
+
+let normal_parts value argument splitted =
+  match value with
+  | JExprC e ->
+    (match e with
+     | Arr elems -> array_form false argument splitted elems
+     | JEmpty -> ((empty_ident, argument), (Some (set_of_list splitted)))
+     | _ -> ((e, argument), (Some (set_of_list splitted))))
+  | _ -> ((empty_ident, argument), (Some (set_of_list splitted)))
 
 (** val parse_directive : node -> node -> bool -> st -> directive * st **)
 
@@ -4188,954 +913,7 @@ let parse_directive name value is_component s =
                       dname
                  then ((parse_v_slots value), s)
                  else let (p0, modifiers) =
-                        match value with
-                        | JExprC e ->
-                          (match e with
-                           | Arr elems ->
-                             let v =
-                               match elems with
-                               | [] -> empty_ident
-                               | n :: _ ->
-                                 (match n with
-                                  | Elem (spread, e0) ->
-                                    if spread then empty_ident else e0
-                                  | _ -> empty_ident)
-                             in
-                             (match elem_at elems (S O) with
-                              | Some e0 ->
-                                (match e0 with
-                                 | NScalar _ ->
-                                   let argument1 =
-                                     match argument0 with
-                                     | Some _ -> argument0
-                                     | None -> Some e0
-                                   in
-                                   let mods =
-                                     match elem_at elems (S (S O)) with
-                                     | Some n ->
-                                       (match n with
-                                        | NScalar _ -> None
-                                        | NArr _ -> None
-                                        | NObj _ -> None
-                                        | Field (_, _) -> None
-                                        | Ident (_, _, _) -> None
-                                        | BIdent (_, _, _, _) -> None
-                                        | IdName _ -> None
-                                        | Str (_, _) -> None
-                                        | Num (_, _) -> None
-                                        | Bool _ -> None
-                                        | Null -> None
-                                        | Arr elems3 ->
-                                          Some (parse_modifiers elems3)
-                                        | _ -> None)
-                                     | None -> None
-                                   in
-                                   ((v, argument1), mods)
-                                 | NArr _ ->
-                                   let argument1 =
-                                     match argument0 with
-                                     | Some _ -> argument0
-                                     | None -> Some e0
-                                   in
-                                   let mods =
-                                     match elem_at elems (S (S O)) with
-                                     | Some n ->
-                                       (match n with
-                                        | NScalar _ -> None
-                                        | NArr _ -> None
-                                        | NObj _ -> None
-                                        | Field (_, _) -> None
-                                        | Ident (_, _, _) -> None
-                                        | BIdent (_, _, _, _) -> None
-                                        | IdName _ -> None
-                                        | Str (_, _) -> None
-                                        | Num (_, _) -> None
-                                        | Bool _ -> None
-                                        | Null -> None
-                                        | Arr elems3 ->
-                                          Some (parse_modifiers elems3)
-                                        | _ -> None)
-                                     | None -> None
-                                   in
-                                   ((v, argument1), mods)
-                                 | NObj _ ->
-                                   let argument1 =
-                                     match argument0 with
-                                     | Some _ -> argument0
-                                     | None -> Some e0
-                                   in
-                                   let mods =
-                                     match elem_at elems (S (S O)) with
-                                     | Some n ->
-                                       (match n with
-                                        | NScalar _ -> None
-                                        | NArr _ -> None
-                                        | NObj _ -> None
-                                        | Field (_, _) -> None
-                                        | Ident (_, _, _) -> None
-                                        | BIdent (_, _, _, _) -> None
-                                        | IdName _ -> None
-                                        | Str (_, _) -> None
-                                        | Num (_, _) -> None
-                                        | Bool _ -> None
-                                        | Null -> None
-                                        | Arr elems3 ->
-                                          Some (parse_modifiers elems3)
-                                        | _ -> None)
-                                     | None -> None
-                                   in
-                                   ((v, argument1), mods)
-                                 | Field (_, _) ->
-                                   let argument1 =
-                                     match argument0 with
-                                     | Some _ -> argument0
-                                     | None -> Some e0
-                                   in
-                                   let mods =
-                                     match elem_at elems (S (S O)) with
-                                     | Some n ->
-                                       (match n with
-                                        | NScalar _ -> None
-                                        | NArr _ -> None
-                                        | NObj _ -> None
-                                        | Field (_, _) -> None
-                                        | Ident (_, _, _) -> None
-                                        | BIdent (_, _, _, _) -> None
-                                        | IdName _ -> None
-                                        | Str (_, _) -> None
-                                        | Num (_, _) -> None
-                                        | Bool _ -> None
-                                        | Null -> None
-                                        | Arr elems3 ->
-                                          Some (parse_modifiers elems3)
-                                        | _ -> None)
-                                     | None -> None
-                                   in
-                                   ((v, argument1), mods)
-                                 | Ident (_, _, _) ->
-                                   let argument1 =
-                                     match argument0 with
-                                     | Some _ -> argument0
-                                     | None -> Some e0
-                                   in
-                                   let mods =
-                                     match elem_at elems (S (S O)) with
-                                     | Some n ->
-                                       (match n with
-                                        | NScalar _ -> None
-                                        | NArr _ -> None
-                                        | NObj _ -> None
-                                        | Field (_, _) -> None
-                                        | Ident (_, _, _) -> None
-                                        | BIdent (_, _, _, _) -> None
-                                        | IdName _ -> None
-                                        | Str (_, _) -> None
-                                        | Num (_, _) -> None
-                                        | Bool _ -> None
-                                        | Null -> None
-                                        | Arr elems3 ->
-                                          Some (parse_modifiers elems3)
-                                        | _ -> None)
-                                     | None -> None
-                                   in
-                                   ((v, argument1), mods)
-                                 | BIdent (_, _, _, _) ->
-                                   let argument1 =
-                                     match argument0 with
-                                     | Some _ -> argument0
-                                     | None -> Some e0
-                                   in
-                                   let mods =
-                                     match elem_at elems (S (S O)) with
-                                     | Some n ->
-                                       (match n with
-                                        | NScalar _ -> None
-                                        | NArr _ -> None
-                                        | NObj _ -> None
-                                        | Field (_, _) -> None
-                                        | Ident (_, _, _) -> None
-                                        | BIdent (_, _, _, _) -> None
-                                        | IdName _ -> None
-                                        | Str (_, _) -> None
-                                        | Num (_, _) -> None
-                                        | Bool _ -> None
-                                        | Null -> None
-                                        | Arr elems3 ->
-                                          Some (parse_modifiers elems3)
-                                        | _ -> None)
-                                     | None -> None
-                                   in
-                                   ((v, argument1), mods)
-                                 | IdName _ ->
-                                   let argument1 =
-                                     match argument0 with
-                                     | Some _ -> argument0
-                                     | None -> Some e0
-                                   in
-                                   let mods =
-                                     match elem_at elems (S (S O)) with
-                                     | Some n ->
-                                       (match n with
-                                        | NScalar _ -> None
-                                        | NArr _ -> None
-                                        | NObj _ -> None
-                                        | Field (_, _) -> None
-                                        | Ident (_, _, _) -> None
-                                        | BIdent (_, _, _, _) -> None
-                                        | IdName _ -> None
-                                        | Str (_, _) -> None
-                                        | Num (_, _) -> None
-                                        | Bool _ -> None
-                                        | Null -> None
-                                        | Arr elems3 ->
-                                          Some (parse_modifiers elems3)
-                                        | _ -> None)
-                                     | None -> None
-                                   in
-                                   ((v, argument1), mods)
-                                 | Str (_, _) ->
-                                   let argument1 =
-                                     match argument0 with
-                                     | Some _ -> argument0
-                                     | None -> Some e0
-                                   in
-                                   let mods =
-                                     match elem_at elems (S (S O)) with
-                                     | Some n ->
-                                       (match n with
-                                        | NScalar _ -> None
-                                        | NArr _ -> None
-                                        | NObj _ -> None
-                                        | Field (_, _) -> None
-                                        | Ident (_, _, _) -> None
-                                        | BIdent (_, _, _, _) -> None
-                                        | IdName _ -> None
-                                        | Str (_, _) -> None
-                                        | Num (_, _) -> None
-                                        | Bool _ -> None
-                                        | Null -> None
-                                        | Arr elems3 ->
-                                          Some (parse_modifiers elems3)
-                                        | _ -> None)
-                                     | None -> None
-                                   in
-                                   ((v, argument1), mods)
-                                 | Num (_, _) ->
-                                   let argument1 =
-                                     match argument0 with
-                                     | Some _ -> argument0
-                                     | None -> Some e0
-                                   in
-                                   let mods =
-                                     match elem_at elems (S (S O)) with
-                                     | Some n ->
-                                       (match n with
-                                        | NScalar _ -> None
-                                        | NArr _ -> None
-                                        | NObj _ -> None
-                                        | Field (_, _) -> None
-                                        | Ident (_, _, _) -> None
-                                        | BIdent (_, _, _, _) -> None
-                                        | IdName _ -> None
-                                        | Str (_, _) -> None
-                                        | Num (_, _) -> None
-                                        | Bool _ -> None
-                                        | Null -> None
-                                        | Arr elems3 ->
-                                          Some (parse_modifiers elems3)
-                                        | _ -> None)
-                                     | None -> None
-                                   in
-                                   ((v, argument1), mods)
-                                 | Bool _ ->
-                                   let argument1 =
-                                     match argument0 with
-                                     | Some _ -> argument0
-                                     | None -> Some e0
-                                   in
-                                   let mods =
-                                     match elem_at elems (S (S O)) with
-                                     | Some n ->
-                                       (match n with
-                                        | NScalar _ -> None
-                                        | NArr _ -> None
-                                        | NObj _ -> None
-                                        | Field (_, _) -> None
-                                        | Ident (_, _, _) -> None
-                                        | BIdent (_, _, _, _) -> None
-                                        | IdName _ -> None
-                                        | Str (_, _) -> None
-                                        | Num (_, _) -> None
-                                        | Bool _ -> None
-                                        | Null -> None
-                                        | Arr elems3 ->
-                                          Some (parse_modifiers elems3)
-                                        | _ -> None)
-                                     | None -> None
-                                   in
-                                   ((v, argument1), mods)
-                                 | Null ->
-                                   let argument1 =
-                                     match argument0 with
-                                     | Some _ -> argument0
-                                     | None -> Some e0
-                                   in
-                                   let mods =
-                                     match elem_at elems (S (S O)) with
-                                     | Some n ->
-                                       (match n with
-                                        | NScalar _ -> None
-                                        | NArr _ -> None
-                                        | NObj _ -> None
-                                        | Field (_, _) -> None
-                                        | Ident (_, _, _) -> None
-                                        | BIdent (_, _, _, _) -> None
-                                        | IdName _ -> None
-                                        | Str (_, _) -> None
-                                        | Num (_, _) -> None
-                                        | Bool _ -> None
-                                        | Null -> None
-                                        | Arr elems3 ->
-                                          Some (parse_modifiers elems3)
-                                        | _ -> None)
-                                     | None -> None
-                                   in
-                                   ((v, argument1), mods)
-                                 | Arr elems2 ->
-                                   ((v, argument0), (Some
-                                     (parse_modifiers elems2)))
-                                 | Elem (_, _) ->
-                                   let argument1 =
-                                     match argument0 with
-                                     | Some _ -> argument0
-                                     | None -> Some e0
-                                   in
-                                   let mods =
-                                     match elem_at elems (S (S O)) with
-                                     | Some n ->
-                                       (match n with
-                                        | NScalar _ -> None
-                                        | NArr _ -> None
-                                        | NObj _ -> None
-                                        | Field (_, _) -> None
-                                        | Ident (_, _, _) -> None
-                                        | BIdent (_, _, _, _) -> None
-                                        | IdName _ -> None
-                                        | Str (_, _) -> None
-                                        | Num (_, _) -> None
-                                        | Bool _ -> None
-                                        | Null -> None
-                                        | Arr elems3 ->
-                                          Some (parse_modifiers elems3)
-                                        | _ -> None)
-                                     | None -> None
-                                   in
-                                   ((v, argument1), mods)
-                                 | Hole ->
-                                   let argument1 =
-                                     match argument0 with
-                                     | Some _ -> argument0
-                                     | None -> Some e0
-                                   in
-                                   let mods =
-                                     match elem_at elems (S (S O)) with
-                                     | Some n ->
-                                       (match n with
-                                        | NScalar _ -> None
-                                        | NArr _ -> None
-                                        | NObj _ -> None
-                                        | Field (_, _) -> None
-                                        | Ident (_, _, _) -> None
-                                        | BIdent (_, _, _, _) -> None
-                                        | IdName _ -> None
-                                        | Str (_, _) -> None
-                                        | Num (_, _) -> None
-                                        | Bool _ -> None
-                                        | Null -> None
-                                        | Arr elems3 ->
-                                          Some (parse_modifiers elems3)
-                                        | _ -> None)
-                                     | None -> None
-                                   in
-                                   ((v, argument1), mods)
-                                 | Obj _ ->
-                                   let argument1 =
-                                     match argument0 with
-                                     | Some _ -> argument0
-                                     | None -> Some e0
-                                   in
-                                   let mods =
-                                     match elem_at elems (S (S O)) with
-                                     | Some n ->
-                                       (match n with
-                                        | NScalar _ -> None
-                                        | NArr _ -> None
-                                        | NObj _ -> None
-                                        | Field (_, _) -> None
-                                        | Ident (_, _, _) -> None
-                                        | BIdent (_, _, _, _) -> None
-                                        | IdName _ -> None
-                                        | Str (_, _) -> None
-                                        | Num (_, _) -> None
-                                        | Bool _ -> None
-                                        | Null -> None
-                                        | Arr elems3 ->
-                                          Some (parse_modifiers elems3)
-                                        | _ -> None)
-                                     | None -> None
-                                   in
-                                   ((v, argument1), mods)
-                                 | KV (_, _) ->
-                                   let argument1 =
-                                     match argument0 with
-                                     | Some _ -> argument0
-                                     | None -> Some e0
-                                   in
-                                   let mods =
-                                     match elem_at elems (S (S O)) with
-                                     | Some n ->
-                                       (match n with
-                                        | NScalar _ -> None
-                                        | NArr _ -> None
-                                        | NObj _ -> None
-                                        | Field (_, _) -> None
-                                        | Ident (_, _, _) -> None
-                                        | BIdent (_, _, _, _) -> None
-                                        | IdName _ -> None
-                                        | Str (_, _) -> None
-                                        | Num (_, _) -> None
-                                        | Bool _ -> None
-                                        | Null -> None
-                                        | Arr elems3 ->
-                                          Some (parse_modifiers elems3)
-                                        | _ -> None)
-                                     | None -> None
-                                   in
-                                   ((v, argument1), mods)
-                                 | Computed _ ->
-                                   let argument1 =
-                                     match argument0 with
-                                     | Some _ -> argument0
-                                     | None -> Some e0
-                                   in
-                                   let mods =
-                                     match elem_at elems (S (S O)) with
-                                     | Some n ->
-                                       (match n with
-                                        | NScalar _ -> None
-                                        | NArr _ -> None
-                                        | NObj _ -> None
-                                        | Field (_, _) -> None
-                                        | Ident (_, _, _) -> None
-                                        | BIdent (_, _, _, _) -> None
-                                        | IdName _ -> None
-                                        | Str (_, _) -> None
-                                        | Num (_, _) -> None
-                                        | Bool _ -> None
-                                        | Null -> None
-                                        | Arr elems3 ->
-                                          Some (parse_modifiers elems3)
-                                        | _ -> None)
-                                     | None -> None
-                                   in
-                                   ((v, argument1), mods)
-                                 | Spread _ ->
-                                   let argument1 =
-                                     match argument0 with
-                                     | Some _ -> argument0
-                                     | None -> Some e0
-                                   in
-                                   let mods =
-                                     match elem_at elems (S (S O)) with
-                                     | Some n ->
-                                       (match n with
-                                        | NScalar _ -> None
-                                        | NArr _ -> None
-                                        | NObj _ -> None
-                                        | Field (_, _) -> None
-                                        | Ident (_, _, _) -> None
-                                        | BIdent (_, _, _, _) -> None
-                                        | IdName _ -> None
-                                        | Str (_, _) -> None
-                                        | Num (_, _) -> None
-                                        | Bool _ -> None
-                                        | Null -> None
-                                        | Arr elems3 ->
-                                          Some (parse_modifiers elems3)
-                                        | _ -> None)
-                                     | None -> None
-                                   in
-                                   ((v, argument1), mods)
-                                 | Call (_, _, _, _, _) ->
-                                   let argument1 =
-                                     match argument0 with
-                                     | Some _ -> argument0
-                                     | None -> Some e0
-                                   in
-                                   let mods =
-                                     match elem_at elems (S (S O)) with
-                                     | Some n ->
-                                       (match n with
-                                        | NScalar _ -> None
-                                        | NArr _ -> None
-                                        | NObj _ -> None
-                                        | Field (_, _) -> None
-                                        | Ident (_, _, _) -> None
-                                        | BIdent (_, _, _, _) -> None
-                                        | IdName _ -> None
-                                        | Str (_, _) -> None
-                                        | Num (_, _) -> None
-                                        | Bool _ -> None
-                                        | Null -> None
-                                        | Arr elems3 ->
-                                          Some (parse_modifiers elems3)
-                                        | _ -> None)
-                                     | None -> None
-                                   in
-                                   ((v, argument1), mods)
-                                 | Arrow (_, _, _, _, _, _, _) ->
-                                   let argument1 =
-                                     match argument0 with
-                                     | Some _ -> argument0
-                                     | None -> Some e0
-                                   in
-                                   let mods =
-                                     match elem_at elems (S (S O)) with
-                                     | Some n ->
-                                       (match n with
-                                        | NScalar _ -> None
-                                        | NArr _ -> None
-                                        | NObj _ -> None
-                                        | Field (_, _) -> None
-                                        | Ident (_, _, _) -> None
-                                        | BIdent (_, _, _, _) -> None
-                                        | IdName _ -> None
-                                        | Str (_, _) -> None
-                                        | Num (_, _) -> None
-                                        | Bool _ -> None
-                                        | Null -> None
-                                        | Arr elems3 ->
-                                          Some (parse_modifiers elems3)
-                                        | _ -> None)
-                                     | None -> None
-                                   in
-                                   ((v, argument1), mods)
-                                 | Assign (_, _, _) ->
-                                   let argument1 =
-                                     match argument0 with
-                                     | Some _ -> argument0
-                                     | None -> Some e0
-                                   in
-                                   let mods =
-                                     match elem_at elems (S (S O)) with
-                                     | Some n ->
-                                       (match n with
-                                        | NScalar _ -> None
-                                        | NArr _ -> None
-                                        | NObj _ -> None
-                                        | Field (_, _) -> None
-                                        | Ident (_, _, _) -> None
-                                        | BIdent (_, _, _, _) -> None
-                                        | IdName _ -> None
-                                        | Str (_, _) -> None
-                                        | Num (_, _) -> None
-                                        | Bool _ -> None
-                                        | Null -> None
-                                        | Arr elems3 ->
-                                          Some (parse_modifiers elems3)
-                                        | _ -> None)
-                                     | None -> None
-                                   in
-                                   ((v, argument1), mods)
-                                 | Paren _ ->
-                                   let argument1 =
-                                     match argument0 with
-                                     | Some _ -> argument0
-                                     | None -> Some e0
-                                   in
-                                   let mods =
-                                     match elem_at elems (S (S O)) with
-                                     | Some n ->
-                                       (match n with
-                                        | NScalar _ -> None
-                                        | NArr _ -> None
-                                        | NObj _ -> None
-                                        | Field (_, _) -> None
-                                        | Ident (_, _, _) -> None
-                                        | BIdent (_, _, _, _) -> None
-                                        | IdName _ -> None
-                                        | Str (_, _) -> None
-                                        | Num (_, _) -> None
-                                        | Bool _ -> None
-                                        | Null -> None
-                                        | Arr elems3 ->
-                                          Some (parse_modifiers elems3)
-                                        | _ -> None)
-                                     | None -> None
-                                   in
-                                   ((v, argument1), mods)
-                                 | Cond (_, _, _) ->
-                                   let argument1 =
-                                     match argument0 with
-                                     | Some _ -> argument0
-                                     | None -> Some e0
-                                   in
-                                   let mods =
-                                     match elem_at elems (S (S O)) with
-                                     | Some n ->
-                                       (match n with
-                                        | NScalar _ -> None
-                                        | NArr _ -> None
-                                        | NObj _ -> None
-                                        | Field (_, _) -> None
-                                        | Ident (_, _, _) -> None
-                                        | BIdent (_, _, _, _) -> None
-                                        | IdName _ -> None
-                                        | Str (_, _) -> None
-                                        | Num (_, _) -> None
-                                        | Bool _ -> None
-                                        | Null -> None
-                                        | Arr elems3 ->
-                                          Some (parse_modifiers elems3)
-                                        | _ -> None)
-                                     | None -> None
-                                   in
-                                   ((v, argument1), mods)
-                                 | Bin (_, _, _) ->
-                                   let argument1 =
-                                     match argument0 with
-                                     | Some _ -> argument0
-                                     | None -> Some e0
-                                   in
-                                   let mods =
-                                     match elem_at elems (S (S O)) with
-                                     | Some n ->
-                                       (match n with
-                                        | NScalar _ -> None
-                                        | NArr _ -> None
-                                        | NObj _ -> None
-                                        | Field (_, _) -> None
-                                        | Ident (_, _, _) -> None
-                                        | BIdent (_, _, _, _) -> None
-                                        | IdName _ -> None
-                                        | Str (_, _) -> None
-                                        | Num (_, _) -> None
-                                        | Bool _ -> None
-                                        | Null -> None
-                                        | Arr elems3 ->
-                                          Some (parse_modifiers elems3)
-                                        | _ -> None)
-                                     | None -> None
-                                   in
-                                   ((v, argument1), mods)
-                                 | Unary (_, _) ->
-                                   let argument1 =
-                                     match argument0 with
-                                     | Some _ -> argument0
-                                     | None -> Some e0
-                                   in
-                                   let mods =
-                                     match elem_at elems (S (S O)) with
-                                     | Some n ->
-                                       (match n with
-                                        | NScalar _ -> None
-                                        | NArr _ -> None
-                                        | NObj _ -> None
-                                        | Field (_, _) -> None
-                                        | Ident (_, _, _) -> None
-                                        | BIdent (_, _, _, _) -> None
-                                        | IdName _ -> None
-                                        | Str (_, _) -> None
-                                        | Num (_, _) -> None
-                                        | Bool _ -> None
-                                        | Null -> None
-                                        | Arr elems3 ->
-                                          Some (parse_modifiers elems3)
-                                        | _ -> None)
-                                     | None -> None
-                                   in
-                                   ((v, argument1), mods)
-                                 | Member (_, _) ->
-                                   let argument1 =
-                                     match argument0 with
-                                     | Some _ -> argument0
-                                     | None -> Some e0
-                                   in
-                                   let mods =
-                                     match elem_at elems (S (S O)) with
-                                     | Some n ->
-                                       (match n with
-                                        | NScalar _ -> None
-                                        | NArr _ -> None
-                                        | NObj _ -> None
-                                        | Field (_, _) -> None
-                                        | Ident (_, _, _) -> None
-                                        | BIdent (_, _, _, _) -> None
-                                        | IdName _ -> None
-                                        | Str (_, _) -> None
-                                        | Num (_, _) -> None
-                                        | Bool _ -> None
-                                        | Null -> None
-                                        | Arr elems3 ->
-                                          Some (parse_modifiers elems3)
-                                        | _ -> None)
-                                     | None -> None
-                                   in
-                                   ((v, argument1), mods)
-                                 | Block (_, _) ->
-                                   let argument1 =
-                                     match argument0 with
-                                     | Some _ -> argument0
-                                     | None -> Some e0
-                                   in
-                                   let mods =
-                                     match elem_at elems (S (S O)) with
-                                     | Some n ->
-                                       (match n with
-                                        | NScalar _ -> None
-                                        | NArr _ -> None
-                                        | NObj _ -> None
-                                        | Field (_, _) -> None
-                                        | Ident (_, _, _) -> None
-                                        | BIdent (_, _, _, _) -> None
-                                        | IdName _ -> None
-                                        | Str (_, _) -> None
-                                        | Num (_, _) -> None
-                                        | Bool _ -> None
-                                        | Null -> None
-                                        | Arr elems3 ->
-                                          Some (parse_modifiers elems3)
-                                        | _ -> None)
-                                     | None -> None
-                                   in
-                                   ((v, argument1), mods)
-                                 | JsxE (_, _, _, _, _, _) ->
-                                   let argument1 =
-                                     match argument0 with
-                                     | Some _ -> argument0
-                                     | None -> Some e0
-                                   in
-                                   let mods =
-                                     match elem_at elems (S (S O)) with
-                                     | Some n ->
-                                       (match n with
-                                        | NScalar _ -> None
-                                        | NArr _ -> None
-                                        | NObj _ -> None
-                                        | Field (_, _) -> None
-                                        | Ident (_, _, _) -> None
-                                        | BIdent (_, _, _, _) -> None
-                                        | IdName _ -> None
-                                        | Str (_, _) -> None
-                                        | Num (_, _) -> None
-                                        | Bool _ -> None
-                                        | Null -> None
-                                        | Arr elems3 ->
-                                          Some (parse_modifiers elems3)
-                                        | _ -> None)
-                                     | None -> None
-                                   in
-                                   ((v, argument1), mods)
-                                 | JsxF _ ->
-                                   let argument1 =
-                                     match argument0 with
-                                     | Some _ -> argument0
-                                     | None -> Some e0
-                                   in
-                                   let mods =
-                                     match elem_at elems (S (S O)) with
-                                     | Some n ->
-                                       (match n with
-                                        | NScalar _ -> None
-                                        | NArr _ -> None
-                                        | NObj _ -> None
-                                        | Field (_, _) -> None
-                                        | Ident (_, _, _) -> None
-                                        | BIdent (_, _, _, _) -> None
-                                        | IdName _ -> None
-                                        | Str (_, _) -> None
-                                        | Num (_, _) -> None
-                                        | Bool _ -> None
-                                        | Null -> None
-                                        | Arr elems3 ->
-                                          Some (parse_modifiers elems3)
-                                        | _ -> None)
-                                     | None -> None
-                                   in
-                                   ((v, argument1), mods)
-                                 | JAttr (_, _) ->
-                                   let argument1 =
-                                     match argument0 with
-                                     | Some _ -> argument0
-                                     | None -> Some e0
-                                   in
-                                   let mods =
-                                     match elem_at elems (S (S O)) with
-                                     | Some n ->
-                                       (match n with
-                                        | NScalar _ -> None
-                                        | NArr _ -> None
-                                        | NObj _ -> None
-                                        | Field (_, _) -> None
-                                        | Ident (_, _, _) -> None
-                                        | BIdent (_, _, _, _) -> None
-                                        | IdName _ -> None
-                                        | Str (_, _) -> None
-                                        | Num (_, _) -> None
-                                        | Bool _ -> None
-                                        | Null -> None
-                                        | Arr elems3 ->
-                                          Some (parse_modifiers elems3)
-                                        | _ -> None)
-                                     | None -> None
-                                   in
-                                   ((v, argument1), mods)
-                                 | JNs (_, _) ->
-                                   let argument1 =
-                                     match argument0 with
-                                     | Some _ -> argument0
-                                     | None -> Some e0
-                                   in
-                                   let mods =
-                                     match elem_at elems (S (S O)) with
-                                     | Some n ->
-                                       (match n with
-                                        | NScalar _ -> None
-                                        | NArr _ -> None
-                                        | NObj _ -> None
-                                        | Field (_, _) -> None
-                                        | Ident (_, _, _) -> None
-                                        | BIdent (_, _, _, _) -> None
-                                        | IdName _ -> None
-                                        | Str (_, _) -> None
-                                        | Num (_, _) -> None
-                                        | Bool _ -> None
-                                        | Null -> None
-                                        | Arr elems3 ->
-                                          Some (parse_modifiers elems3)
-                                        | _ -> None)
-                                     | None -> None
-                                   in
-                                   ((v, argument1), mods)
-                                 | JExprC _ ->
-                                   let argument1 =
-                                     match argument0 with
-                                     | Some _ -> argument0
-                                     | None -> Some e0
-                                   in
-                                   let mods =
-                                     match elem_at elems (S (S O)) with
-                                     | Some n ->
-                                       (match n with
-                                        | NScalar _ -> None
-                                        | NArr _ -> None
-                                        | NObj _ -> None
-                                        | Field (_, _) -> None
-                                        | Ident (_, _, _) -> None
-                                        | BIdent (_, _, _, _) -> None
-                                        | IdName _ -> None
-                                        | Str (_, _) -> None
-                                        | Num (_, _) -> None
-                                        | Bool _ -> None
-                                        | Null -> None
-                                        | Arr elems3 ->
-                                          Some (parse_modifiers elems3)
-                                        | _ -> None)
-                                     | None -> None
-                                   in
-                                   ((v, argument1), mods)
-                                 | JEmpty ->
-                                   let argument1 =
-                                     match argument0 with
-                                     | Some _ -> argument0
-                                     | None -> Some e0
-                                   in
-                                   let mods =
-                                     match elem_at elems (S (S O)) with
-                                     | Some n ->
-                                       (match n with
-                                        | NScalar _ -> None
-                                        | NArr _ -> None
-                                        | NObj _ -> None
-                                        | Field (_, _) -> None
-                                        | Ident (_, _, _) -> None
-                                        | BIdent (_, _, _, _) -> None
-                                        | IdName _ -> None
-                                        | Str (_, _) -> None
-                                        | Num (_, _) -> None
-                                        | Bool _ -> None
-                                        | Null -> None
-                                        | Arr elems3 ->
-                                          Some (parse_modifiers elems3)
-                                        | _ -> None)
-                                     | None -> None
-                                   in
-                                   ((v, argument1), mods)
-                                 | JText (_, _) ->
-                                   let argument1 =
-                                     match argument0 with
-                                     | Some _ -> argument0
-                                     | None -> Some e0
-                                   in
-                                   let mods =
-                                     match elem_at elems (S (S O)) with
-                                     | Some n ->
-                                       (match n with
-                                        | NScalar _ -> None
-                                        | NArr _ -> None
-                                        | NObj _ -> None
-                                        | Field (_, _) -> None
-                                        | Ident (_, _, _) -> None
-                                        | BIdent (_, _, _, _) -> None
-                                        | IdName _ -> None
-                                        | Str (_, _) -> None
-                                        | Num (_, _) -> None
-                                        | Bool _ -> None
-                                        | Null -> None
-                                        | Arr elems3 ->
-                                          Some (parse_modifiers elems3)
-                                        | _ -> None)
-                                     | None -> None
-                                   in
-                                   ((v, argument1), mods)
-                                 | JSpreadChild _ ->
-                                   let argument1 =
-                                     match argument0 with
-                                     | Some _ -> argument0
-                                     | None -> Some e0
-                                   in
-                                   let mods =
-                                     match elem_at elems (S (S O)) with
-                                     | Some n ->
-                                       (match n with
-                                        | NScalar _ -> None
-                                        | NArr _ -> None
-                                        | NObj _ -> None
-                                        | Field (_, _) -> None
-                                        | Ident (_, _, _) -> None
-                                        | BIdent (_, _, _, _) -> None
-                                        | IdName _ -> None
-                                        | Str (_, _) -> None
-                                        | Num (_, _) -> None
-                                        | Bool _ -> None
-                                        | Null -> None
-                                        | Arr elems3 ->
-                                          Some (parse_modifiers elems3)
-                                        | _ -> None)
-                                     | None -> None
-                                   in
-                                   ((v, argument1), mods))
-                              | None ->
-                                ((v, argument0), (Some
-                                  (set_of_list splitted))))
-                           | JEmpty ->
-                             ((empty_ident, argument0), (Some
-                               (set_of_list splitted)))
-                           | _ ->
-                             ((e, argument0), (Some (set_of_list splitted))))
-                        | _ ->
-                          ((empty_ident, argument0), (Some
-                            (set_of_list splitted)))
+                        normal_parts value argument0 splitted
                       in
                       let (value', argument1) = p0 in
                       ((DNormal (dname,
